@@ -1,38 +1,63 @@
-"""C02 -- assembled stiffness equals the Hessian of the total energy (structural clauses).
+"""C02 -- assembled stiffness equals the Hessian of the total energy; block splitting is transparent.
 
-Decided here (necessary conditions visible in the shape of the code):
-  D1  every advertised option of the three mechanics factories is executable (link integrity over
-      their call-graph cones, incl. the `modify_element_gradient` callback-slot protocol);
-  D2  the stiffness is the Hessian of the *same* energy: element_hess_func is jax.hessian (argnum 0)
-      of FunctionSpace.integrate_element_from_local_field; energy path and Hessian path call the
-      gradient hook and the density with the same argument roles; each factory builds energy and
-      stiffness from the same density + hook; the Newmark Hessian gives every energy term the
-      nodal field the Newmark energy gives it (a term that is a quadratic form is exempt);
-  D3  block splitting: every per-element operand in a per-block loop is restricted by the block's
-      own element ids and scattered back with the same ids; the model is selected by the same key.
+All D2 / D3 obligations are decided on the *results* of interpreting the source of optimism/Mechanics.py and
+optimism/FunctionSpace.py symbolically (rules/C02_model.py: optilint.tensoreval extended with vmap/in_axes, hessian
+requests, uninterpreted material models) on a tiny mesh with symbolic data.  Nothing is matched against statement text,
+local names, helper names or idioms; what is used of the library is its public interface (the three factories, the fields of
+the containers they return, the FunctionSpace integrators, the attributes of FunctionSpace/Mesh, the material-model interface).
+
+  D1  every advertised option of the three mechanics factories is executable (link integrity over their call-graph cones);
+  D2  T5  what `compute_element_stiffnesses` / `compute_element_hessians` return is, element by element, a Hessian of ONE function
+          w.r.t. the element's own nodal values U[conns[e],:] (up to a U-independent shift), nothing else depending on U;
+      T6  energy(U) - sum_e (that function)(U) is affine in U, for every factory x mode2D x pressureProjectionDegree:
+          same density, same gradient transformation, same weights, same parameters; for Newmark, per energy term;
+          the two FunctionSpace integrators call the gradient hook and the density with the roles their contract states;
+          every closure of a factory hands the same displacement gradient to the material; degree 0 is honoured like degree 1
+          and sibling factories agree;  T14 each mode2D yields its kinematics (plane strain / hoop strain u_r/r);
+      T7  the kinetic energy is a quadratic form (constant Hessian);
+  D3  multi-block with one material per block: energy, stiffness, state update, initial state and output fields are, block by
+      block, those of the single-block factory with that block's material; with the same material everywhere nothing changes.
 Not decided: numerical equality with jax.hessian, symmetry, COO arithmetic.
 """
 from __future__ import annotations
 
 import ast
 
-from optilint.model import FuncVal, ExtVal, walk_local, norm_src, dotted
-from optilint.cfg import cfg_of
 from optilint.core import Incomplete
-from .common import link_cone, calls_in, actual, src, find_calls_to
+from optilint.tensoreval import Dual, Arr, PyFunc, Record, Closure, EvalError, Raised, _A
+from optilint.expr import Rat, Poly, simplify
+from .common import link_cone
+from . import C02_model as cm
+from .C02_model import World, NE, NN, NQ, ND, NSTATE, NNODE, CONNS, BLOCKS, MappedSizeMismatch, InfiniteRecursion
 
 LEVEL = "other"
-RULE_TEXT = ("obligations = (scope in factory cone x link-integrity) + (factory x energy/stiffness argument roles) "
-             "+ (per-block loop x operand restricted by block ids); distinct = distinct (rule, function, construct)")
-EXPLANATION = ("Static analysis of optimism/Mechanics.py, FunctionSpace.py, SparseMatrixAssembler.py: link integrity of "
-               "the cones of create_mechanics_functions / create_multi_block_mechanics_functions / "
-               "create_dynamics_functions, sibling agreement between the energy and the Hessian construction, "
-               "and block-restriction provenance in the multi-block loops. Decides structural necessary "
-               "conditions only; numerical equality of the assembled matrix with the Hessian is not decided.")
+RULE_TEXT = ("obligations = (scope in factory cone x link-integrity) + (factory x mode2D x projection degree x {energy vs differentiated "
+             "element function, per-closure kinematics}) + (block x quantity vs single-block factory); identities between symbolic results "
+             "of interpreting the factories, not source templates")
+EXPLANATION = ("Symbolic interpretation (optilint.tensoreval + rules/C02_model.py) of optimism/Mechanics.py and FunctionSpace.py on a "
+               "3-element mesh with symbolic fields, shape data and internal variables and uninterpreted material models: the array "
+               "returned by the element-stiffness closures is traced back to jax.hessian requests, the differentiated function is "
+               "re-evaluated and compared with the energy closure of the same factory (difference affine in U), for every mode2D and "
+               "pressure-projection degree; the multi-block factory is compared block by block with the single-block one. Link integrity "
+               "of the factories' call-graph cones. Numerical equality of the assembled sparse matrix with the Hessian is not decided.")
 
 M = "optimism.Mechanics"
 FS = "optimism.FunctionSpace"
 FACTORIES = ["create_mechanics_functions", "create_multi_block_mechanics_functions", "create_dynamics_functions"]
+KIND = {"create_mechanics_functions": "single", "create_multi_block_mechanics_functions": "multi", "create_dynamics_functions": "dyn"}
+MODES = ["plane strain", "axisymmetric"]
+DEGREES = [None, 0, 1]
+ERR = (EvalError, Raised, KeyError, ValueError, TypeError, AttributeError, IndexError, RecursionError, ZeroDivisionError)
+
+T5 = "D2/T5-hessian-of-element-energy"
+T6P = "D2/T6-energy-vs-hessian-path"
+T6F = "D2/T6-factory-energy-vs-stiffness"
+T6N = "D2/T6-newmark-term-fields"
+T6H = "D2/T6-one-gradient-transformation"
+T6G = "D2/T6-projection-option-guard"
+T7 = "D2/T7-kinetic-quadratic"
+T14 = "D2/T14-mode-dispatch"
+T9 = "D3/T9-block-restricted"
 
 
 def run(ctx):
@@ -40,19 +65,25 @@ def run(ctx):
     ctx.need_module(FS)
     ctx.need_module("optimism.SparseMatrixAssembler")
     ctx.guard(d1, ctx)
-    ctx.guard(d2_hess_wiring, ctx)
-    ctx.guard(d2_paths, ctx)
-    ctx.guard(d2_factories, ctx)
-    ctx.guard(d2_newmark, ctx)
-    ctx.guard(d2_projection_guard, ctx)
-    ctx.guard(d3_blocks, ctx)
-    from .common import hook_agreement, mode_dispatch
-    for f_ in FACTORIES:
-        hook_agreement(ctx, "D2/T6-one-gradient-transformation", f"{M}:{f_}", min_sites=3)
-    mode_dispatch(ctx, "D2/T14-mode-dispatch", [f"{M}:create_mechanics_functions", f"{M}:create_multi_block_mechanics_functions",
-                                                 f"{M}:parse_2D_to_3D_gradient_transformation"])
+    S = Session(ctx)
+    ctx.guard(d2_paths, ctx, S)
+    ctx.guard(d2_hess_wiring, ctx, S)
+    ctx.guard(d2_factories, ctx, S)
+    ctx.guard(d2_newmark, ctx, S)
+    ctx.guard(d2_kinematics, ctx, S)
+    ctx.guard(d2_projection_guard, ctx, S)
+    ctx.guard(d2_modes, ctx, S)
+    ctx.guard(d3_blocks, ctx, S)
+    for q in sorted(S.W.I.visited):
+        sc = ctx.repo.find(q)
+        if sc is not None and not sc.module.is_test:
+            ctx.touch(sc)
     ctx.trust("python ast; optilint resolver (flow-insensitive name binding, transparent jax wrappers)")
-    ctx.trust("jax.hessian(f) differentiates twice w.r.t. positional argument 0 unless argnums is given")
+    ctx.trust("jax.hessian(f, argnums)(*args) is the second derivative of f w.r.t. positional argument argnums at args; jax.vmap(f, in_axes) "
+              "applies f along the leading axis of the arguments whose in_axes entry is 0")
+    ctx.trust("exact rational-function arithmetic; applications of uninterpreted functions are identified when their arguments are equal "
+              "(polynomial identity test modulo 2^61-1, confirmed by exact subtraction)")
+    ctx.assume("material models, Interpolants.compute_shapes and numpy.linalg.solve / sqrt are pure functions of their arguments")
 
 
 # ------------------------------------------------------------------ D1
@@ -69,612 +100,999 @@ def d1(ctx):
     link_cone(ctx, "D1/T10-link", roots, "mechanics factories", stop=stop, min_scopes=30)
 
 
-# ------------------------------------------------------------------ D2: hessian wiring
+# ------------------------------------------------------------------ evaluation sessions
 
-def d2_hess_wiring(ctx):
-    rule = "D2/T5-hessian-of-element-energy"
-    mod = ctx.need_module(M)
-    ms = mod.scope
-    target = ctx.need(f"{FS}:integrate_element_from_local_field")
-    bs = ms.bindings.get("element_hess_func")
-    if not bs:
-        raise Incomplete("Mechanics.element_hess_func not bound")
-    for b in bs:
-        call = b.value
-        ok = False
-        detail = ""
-        if isinstance(call, ast.Call):
-            fv = ctx.repo.resolve(call.func, ms)
-            is_hess = any(isinstance(v, ExtVal) and v.name == "jax.hessian" for v in fv)
-            inner = ctx.repo.resolve(call.args[0], ms) if call.args else set()
-            is_target = any(isinstance(v, FuncVal) and v.scope is target for v in inner) and len(inner) == 1
-            argnums = None
-            if len(call.args) > 1:
-                argnums = call.args[1]
-            for k in call.keywords:
-                if k.arg == "argnums":
-                    argnums = k.value
-            arg0 = argnums is None or (isinstance(argnums, ast.Constant) and argnums.value == 0)
-            ok = is_hess and is_target and arg0
-            detail = f"hessian={is_hess} of integrate_element_from_local_field={is_target} argnums0={arg0}"
-        ctx.decide(rule, ok, ms, b.node, construct="element_hess_func", detail=detail,
-                   bad_detail="element_hess_func is not jax.hessian(FunctionSpace.integrate_element_from_local_field) w.r.t. argument 0: " + detail)
-    # differentiated argument is the element nodal field, and the wrapper forwards the roles
-    wrap = ctx.need(f"{M}:compute_element_stiffness_from_global_fields")
-    tparams = target.params()
-    for call in calls_in(wrap):
-        if dotted(call.func) != "element_hess_func":
-            continue
-        roles = {}
-        for p in tparams:
-            roles[p] = actual(call, tparams, p)
-        a0 = roles.get(tparams[0])
-        # first argument must be <global field>[<connectivity>, :] of the wrapper's own U / elConn params
-        ok0 = False
-        cfg = cfg_of(wrap)
-        node = [n for n in cfg.nodes if n.ast is not None and any(c is call for c in ast.walk(n.ast))]
-        from .common import expand
-        a0x = expand(cfg, node[0], a0) if node and a0 is not None else a0
-        if isinstance(a0x, ast.Subscript) and isinstance(a0x.value, ast.Name) and a0x.value.id == wrap.params()[0]:
-            ok0 = "elConn" in {n.id for n in ast.walk(a0x.slice) if isinstance(n, ast.Name)} or \
-                  any(n.id in wrap.params() for n in ast.walk(a0x.slice) if isinstance(n, ast.Name))
-        ctx.decide(rule, ok0, wrap, call, construct="differentiated-argument",
-                   detail=f"argument 0 of the element Hessian is {src(a0x)}",
-                   bad_detail=f"argument 0 of the element Hessian is {src(a0x)}, not the global field gathered on the element connectivity")
-        for pname, want in (("func", "lagrangian_density"), ("modify_element_gradient", "modify_element_gradient"),
-                            ("elemStates", "elInternals"), ("dt", "dt"), ("elemVols", "elVols"),
-                            ("elemShapes", "elShapes"), ("elemShapeGrads", "elShapeGrads")):
-            if pname not in tparams:
-                raise Incomplete(f"parameter {pname} of integrate_element_from_local_field vanished")
-            got = roles.get(pname)
-            ok = isinstance(got, ast.Name) and got.id in wrap.params()
-            # role agreement by parameter *position class*: the wrapper's parameter feeding `pname`
-            ctx.decide(rule, ok and _role_ok(pname, got.id if ok else ""), wrap, call,
-                       construct=f"forward:{pname}", detail=f"{pname} <- {src(got)}",
-                       bad_detail=f"{pname} of the element energy receives {src(got)}")
+FIELD_ARGS = {
+    "single": {"compute_strain_energy": "UQt", "compute_updated_internal_variables": "UQt", "compute_element_stiffnesses": "UQt",
+               "compute_output_energy_densities_and_stresses": "UQt", "integrated_material_qoi": "UQt", "compute_output_material_qoi": "UQt",
+               "compute_initial_state": ""},
+    "dyn": {"compute_algorithmic_energy": "UPQt", "compute_updated_internal_variables": "UQt", "compute_element_hessians": "UPQt",
+            "compute_output_energy_densities_and_stresses": "UQt", "compute_output_strain_energy": "UQt", "compute_initial_state": "",
+            "compute_output_kinetic_energy": "V", "compute_element_masses": ""},
+}
+FIELD_ARGS["multi"] = FIELD_ARGS["single"]
+ENERGY = {"single": "compute_strain_energy", "multi": "compute_strain_energy", "dyn": "compute_algorithmic_energy"}
+STIFF = {"single": "compute_element_stiffnesses", "multi": "compute_element_stiffnesses", "dyn": "compute_element_hessians"}
 
 
-def _role_ok(pname, argname):
-    table = {"func": ("lagrangian", "density", "func"), "modify_element_gradient": ("modify", "gradient"),
-             "elemStates": ("internal", "state"), "dt": ("dt",), "elemVols": ("vol",),
-             "elemShapes": ("shape",), "elemShapeGrads": ("shapegrad", "grad")}
-    a = argname.lower()
-    if pname == "elemShapes":
-        return "shape" in a and "grad" not in a
-    return any(t in a for t in table[pname])
+class Ev:
+    """result of evaluating one closure: value | error, the hessian requests / material calls it made, whether a fallback was used"""
+    def __init__(self):
+        self.value = None
+        self.error = None
+        self.exc = None
+        self.reqs = []
+        self.log = []
+        self.tainted = False
 
 
-# ------------------------------------------------------------------ D2: energy path vs Hessian path
-
-def _hook_call_roles(ctx, scope, hook_param):
-    """Roles of the 5 arguments of the call through the gradient hook in `scope`."""
-    cfg = cfg_of(scope)
-    from .common import expand
-    for n in cfg.nodes:
-        if n.ast is None or n.kind != "stmt":
-            continue
-        for call in [c for c in ast.walk(n.ast) if isinstance(c, ast.Call)]:
-            if isinstance(call.func, ast.Name) and call.func.id == hook_param:
-                return n, call, [expand(cfg, n, a) for a in call.args]
-    return None, None, None
-
-
-def _classify(e, scope):
-    """Role of an expression inside an element kernel."""
-    s = src(e)
-    names = {n.id for n in ast.walk(e) if isinstance(n, ast.Name)}
-    if "compute_quadrature_point_field_gradient" in s:
-        return "field-gradients"
-    low = s.lower()
-    if isinstance(e, ast.Subscript) or isinstance(e, ast.Name):
-        if "coord" in low:
-            return "nodal-coords"
-        if "shapegrad" in low:
-            return "shape-grads"
-        if "shape" in low:
-            return "shapes"
-        if "vol" in low:
-            return "vols"
-        return "nodal-field"
-    return "other:" + s
-
-
-def d2_paths(ctx):
-    rule = "D2/T6-energy-vs-hessian-path"
-    e_path = ctx.need(f"{FS}:compute_element_field_gradient")      # used by evaluate_on_element
-    h_path = ctx.need(f"{FS}:integrate_element_from_local_field")
-    ev = ctx.need(f"{FS}:evaluate_on_element")
-    want = ["field-gradients", "shapes", "vols", "nodal-field", "nodal-coords"]
-    roles = {}
-    for sc in (e_path, h_path):
-        n, call, args = _hook_call_roles(ctx, sc, "modify_element_gradient")
-        if call is None:
-            raise Incomplete(f"no call through modify_element_gradient in {sc.qualname}")
-        got = [_classify(a, sc) for a in args]
-        roles[sc.qualname] = got
-        ctx.decide(rule, got == want, sc, call, construct="hook-argument-roles",
-                   detail=f"roles {got}", bad_detail=f"gradient hook called with roles {got}, expected {want}")
-    # evaluate_on_element must route through compute_element_field_gradient with the same hook
-    calls = find_calls_to(ev, ctx, e_path.qualname)
-    ok = bool(calls) and all(isinstance(actual(c, e_path.params(), "modify_element_gradient"), ast.Name) and
-                             actual(c, e_path.params(), "modify_element_gradient").id == "modify_element_gradient"
-                             for c in calls)
-    ctx.decide(rule, ok if calls else None, ev, calls[0] if calls else None, construct="energy-path-uses-hook",
-               detail="evaluate_on_element forwards its hook to compute_element_field_gradient",
-               bad_detail="evaluate_on_element does not forward its gradient hook")
-    # density call: vmap(func, (0,0,0,0,None,...))(vals, grads, states, points, dt)
-    for sc, fname in ((ev, "kernelFunc"), (h_path, "func")):
-        found = False
-        for call in calls_in(sc):
-            f = call.func
-            if isinstance(f, ast.Call) and dotted(f.func) in ("jax.vmap", "vmap") and f.args and \
-                    isinstance(f.args[0], ast.Name) and f.args[0].id == fname:
-                found = True
-                cfg = cfg_of(sc)
-                from .common import expand
-                node = [n for n in cfg.nodes if n.ast is not None and any(c is call for c in ast.walk(n.ast))][0]
-                axes = expand(cfg, node, f.args[1]) if len(f.args) > 1 else None
-                ax = []
-                if isinstance(axes, ast.Tuple):
-                    for e in axes.elts[:5]:
-                        ax.append(e.value if isinstance(e, ast.Constant) else "?")
-                okax = ax == [0, 0, 0, 0, None]
-                a = [src(x) for x in call.args[:5]]
-                cls = []
-                for x in call.args[:5]:
-                    xs = src(expand(cfg, node, x)).lower()
-                    if "modify_element_gradient" in xs or "grad" in xs:
-                        cls.append("grads")
-                    elif "state" in xs:
-                        cls.append("states")
-                    elif "coord" in xs:
-                        cls.append("points")
-                    elif xs == "dt":
-                        cls.append("dt")
-                    elif "interpolate" in xs:
-                        cls.append("values")
-                    else:
-                        cls.append("other:" + xs)
-                okr = cls == ["values", "grads", "states", "points", "dt"]
-                ctx.decide(rule, okax and okr, sc, call, construct="density-call",
-                           detail=f"in_axes {ax} roles {cls}",
-                           bad_detail=f"density called with in_axes {ax} / roles {cls} ({a})")
-        if not found:
-            ctx.undecided(rule, sc, None, construct="density-call", detail=f"no vmap({fname}, ...) call found")
-    # both integrate with the element volumes: np.dot(fVals, elemVols) / dot(vals, vols[block])
-    iob = ctx.need(f"{FS}:integrate_over_block")
-    for sc, volname in ((h_path, "elemVols"),):
-        rets = sc.returns()
-        ok = len(rets) == 1 and isinstance(rets[0], ast.Call) and dotted(rets[0].func) in ("np.dot", "jax.numpy.dot") \
-            and any(isinstance(a, ast.Name) and a.id == volname for a in rets[0].args)
-        ctx.decide(rule, ok, sc, rets[0] if rets else None, construct="weights",
-                   detail="element integral is dot(values, element volumes)",
-                   bad_detail="element integral is not dot(values, elemVols)")
-    rets = iob.returns()
-    ok = len(rets) == 1 and "vols[block]" in src(rets[0]) and "np.dot" in src(rets[0])
-    ctx.decide(rule, ok, iob, rets[0] if rets else None, construct="weights",
-               detail="block integral is dot(values, vols[block])",
-               bad_detail="block integral is not dot(values, functionSpace.vols[block])")
-
-
-# ------------------------------------------------------------------ D2: factories
-
-def _closure_call(scope, inner_name, callee_names):
-    inner = None
-    for c in scope.children:
-        if c.name == inner_name and c.is_function():
-            inner = c
-    if inner is None:
-        return None, None
-    for call in calls_in(inner):
-        d = dotted(call.func)
-        if d and d.split(".")[-1] in callee_names:
-            return inner, call
-    return inner, None
-
-
-def d2_factories(ctx):
-    rule = "D2/T6-factory-energy-vs-stiffness"
-    table = [
-        ("create_mechanics_functions", "compute_strain_energy", "_compute_strain_energy",
-         "compute_element_stiffnesses", "_compute_element_stiffnesses",
-         [("compute_energy_density", "compute_energy_density"), ("modify_element_gradient", "modify_element_gradient"),
-          ("UField", "U"), ("stateField", "internals"), ("dt", "dt"), ("functionSpace", "functionSpace")]),
-        ("create_multi_block_mechanics_functions", "compute_strain_energy", "_compute_strain_energy_multi_block",
-         "compute_element_stiffnesses", "_compute_element_stiffnesses_multi_block",
-         [("blockModels", "blockModels"), ("modify_element_gradient", "modify_element_gradient"),
-          ("UField", "U"), ("stateField", "stateVariables"), ("dt", "dt"), ("functionSpace", "functionSpace")]),
-        ("create_dynamics_functions", "compute_algorithmic_energy", "compute_newmark_lagrangian",
-         "compute_element_hessians", "_compute_newmark_element_hessians",
-         [("strain_energy_density", "strain_energy_density"), ("modify_element_gradient", "modify_element_gradient"),
-          ("U", "U"), ("UPredicted", "UPredicted"), ("internals", "internals"), ("dt", "dt"),
-          ("density", "density"), ("newmarkBeta", "newmarkBeta"), ("functionSpace", "functionSpace")]),
-    ]
-    for fac, e_inner, e_callee, k_inner, k_callee, pairs in table:
-        fs = ctx.need(f"{M}:{fac}")
-        ei, ecall = _closure_call(fs, e_inner, {e_callee})
-        ki, kcall = _closure_call(fs, k_inner, {k_callee})
-        if ecall is None or kcall is None:
-            ctx.undecided(rule, fs, None, construct=f"{fac}:closures",
-                          detail=f"cannot find {e_inner}->{e_callee} / {k_inner}->{k_callee}")
-            continue
-        ec = ctx.need(f"{M}:{e_callee}")
-        kc = ctx.need(f"{M}:{k_callee}")
-        for (pe, pk) in pairs:
-            ae = actual(ecall, ec.params(), pe)
-            ak = actual(kcall, kc.params(), pk)
-            if ae is None or ak is None:
-                ctx.undecided(rule, fs, kcall, construct=f"{fac}:{pe}",
-                              detail=f"parameter {pe}/{pk} not found in callee signatures")
-                continue
-            # plain aliases of the factory (`fs = functionSpace`) are resolved before comparing
-            al = {}
-            for st_ in fs.node.body:
-                if isinstance(st_, ast.Assign) and len(st_.targets) == 1 and isinstance(st_.targets[0], ast.Name) and isinstance(st_.value, ast.Name):
-                    nm_ = st_.targets[0].id
-                    ndef = sum(1 for w_ in ast.walk(fs.node) if (isinstance(w_, ast.Name) and isinstance(w_.ctx, ast.Store) and w_.id == nm_)
-                               or (isinstance(w_, ast.FunctionDef) and w_.name == nm_))
-                    if ndef == 1:
-                        al[nm_] = st_.value.id
-
-            def _unalias(e_):
-                t_ = src(e_)
-                if isinstance(e_, ast.Name) and e_.id in al:
-                    t_ = al[e_.id]
-                return _canon_fs(t_)
-            se, sk = _unalias(ae), _unalias(ak)
-            # closure parameters are compared by position in their own closure
-            if isinstance(ae, ast.Name) and ae.id in ei.params() and isinstance(ak, ast.Name) and ak.id in ki.params():
-                ok = ei.params().index(ae.id) == ki.params().index(ak.id)
-                se, sk = f"param#{ei.params().index(ae.id)}", f"param#{ki.params().index(ak.id)}"
+class Case:
+    def __init__(self, S, fac, mode, deg, mats):
+        self.S, self.fac, self.mode, self.deg, self.mats = S, fac, mode, deg, mats
+        self.kind = KIND[fac]
+        self.fns = None
+        self.rejected = None       # the factory raised: option not offered
+        self.error = None
+        self.exc = None
+        self.evs = {}
+        self.label = f"{fac}:mode2D={mode!r},pressureProjectionDegree={deg}"
+        W = S.W
+        self.tainted = False
+        t0 = len(W.I.taint)
+        try:
+            f = W.fn(M, fac)
+            fsr = W.fs_for(mode)
+            if self.kind == "single":
+                self.fns = W.call(f, fsr, mode, W.material(mats), deg)
+            elif self.kind == "multi":
+                self.fns = W.call(f, fsr, mode, {b: W.material(m) for b, m in zip(BLOCKS, mats)}, deg)
             else:
-                ok = se == sk
-            ctx.decide(rule, ok, fs, kcall, construct=f"{fac}:{pe}",
-                       detail=f"energy gets {se}, stiffness gets {sk}",
-                       bad_detail=f"energy is built with {pe}={se} but the stiffness with {pk}={sk}")
-    # inside the helpers: both wrap the density the same way and pass the hook on
-    for (a, b) in (("_compute_strain_energy", "_compute_element_stiffnesses"),
-                   ("_compute_strain_energy_multi_block", "_compute_element_stiffnesses_multi_block")):
-        sa, sb = ctx.need(f"{M}:{a}"), ctx.need(f"{M}:{b}")
-        for sc in (sa, sb):
-            wraps = [c for c in calls_in(sc) if dotted(c.func) == "strain_energy_density_to_lagrangian_density"]
-            hooks = [n for n in walk_local(sc.node) if isinstance(n, ast.Name) and n.id == "modify_element_gradient"
-                     and isinstance(n.ctx, ast.Load)]
-            ok = len(wraps) >= 1 and len(hooks) >= 1
-            ctx.decide(rule, ok, sc, wraps[0] if wraps else None, construct="density-wrap-and-hook",
-                       detail=f"{len(wraps)} lagrangian wrap(s), hook forwarded {len(hooks)}x",
-                       bad_detail="helper does not wrap the density with strain_energy_density_to_lagrangian_density "
-                                  "or drops the gradient hook")
-    w = ctx.need(f"{M}:strain_energy_density_to_lagrangian_density")
-    inner = [c for c in w.children if c.is_function()]
-    ok = False
-    if inner:
-        L = inner[0]
-        r = L.returns()
-        ps = L.params()
-        if len(r) == 1 and isinstance(r[0], ast.Call) and len(ps) >= 5:
-            args = [a.id if isinstance(a, ast.Name) else None for a in r[0].args]
-            ok = args == [ps[1], ps[2], ps[4]] and isinstance(r[0].func, ast.Name) and r[0].func.id == w.params()[0]
-    ctx.decide(rule, ok, w, None, construct="lagrangian-adapter",
-               detail="L(U, gradU, Q, X, dt) = density(gradU, Q, dt)",
-               bad_detail="the Lagrangian adapter does not forward (gradU, Q, dt) to the strain energy density")
+                self.fns = W.call(f, fsr, mode, W.material(mats), W.newmark(), deg)
+            if not isinstance(self.fns, Record):
+                self.error, self.fns = f"factory returned {self.fns!r}", None
+        except Raised as ex:
+            self.rejected = str(ex)
+        except ERR as ex:
+            self.error, self.exc = f"{type(ex).__name__}: {ex}", ex
+        self.tainted = len(W.I.taint) > t0
+
+    def ev(self, field) -> Ev:
+        if field in self.evs:
+            return self.evs[field]
+        W, I = self.S.W, self.S.W.I
+        e = self.evs[field] = Ev()
+        if self.fns is None:
+            e.error = self.error or f"option rejected: {self.rejected}"
+            return e
+        spec = FIELD_ARGS[self.kind].get(field)
+        if spec is None or field not in self.fns.fields or self.fns.get(field) is None:
+            e.error = f"the factory's result has no closure `{field}`"
+            return e
+        args = {"UQt": [W.U, W.Q, W.dt], "UPQt": [W.U, W.UP, W.Q, W.dt], "": [], "V": [self.S.V]}[spec]
+        h0, l0, t0 = len(I.hess), len(I.log), len(I.taint)
+        try:
+            e.value = I.call(self.fns.get(field), list(args), {})
+        except ERR as ex:
+            e.error, e.exc = f"{type(ex).__name__}: {ex}", ex
+        e.reqs = list(range(h0, len(I.hess)))
+        e.log = I.log[l0:]
+        e.tainted = self.tainted or len(I.taint) > t0
+        return e
 
 
-def _canon_fs(s):
-    return s.replace("functionSpace", "fs")
+class Session:
+    def __init__(self, ctx):
+        self.ctx = ctx
+        self.W = World(ctx)
+        self.V = self.W.I.sym_arr("V", (NNODE, ND))
+        self.cases = {}
+        self.req_eval = {}
+        self._canon = {}
+        self.scopes = {f: ctx.need(f"{M}:{f}") for f in FACTORIES}
+
+    def case(self, fac, mode, deg, mats=None) -> Case:
+        if mats is None:
+            mats = ("A", "A") if KIND[fac] == "multi" else "A"
+        k = (fac, mode, deg, mats)
+        if k not in self.cases:
+            self.cases[k] = Case(self, fac, mode, deg, mats)
+        return self.cases[k]
+
+    def canon(self, v):
+        """canonical id of a value: equal fingerprints are confirmed by exact comparison"""
+        k = self.W.I.vkey(v)
+        lst = self._canon.setdefault(k, [])
+        for i, v0 in enumerate(lst):
+            if v0 is v or self.W.same(v0, v) is not False:
+                return (k, i)
+        lst.append(v)
+        return (k, len(lst) - 1)
+
+    def request(self, k):
+        """(value G_k of the differentiated function at the actual arguments | None, error, material log, tainted)"""
+        if k in self.req_eval:
+            return self.req_eval[k]
+        I = self.W.I
+        r = I.hess[k]
+        l0, t0 = len(I.log), len(I.taint)
+        val = err = None
+        try:
+            val = I.num(I.call(r["fn"], list(r["args"]), dict(r["kwargs"])))
+            if isinstance(val, Arr):
+                val, err = None, "the differentiated function is not scalar valued"
+        except ERR as ex:
+            err = f"{type(ex).__name__}: {ex}"
+        out = self.req_eval[k] = (val, err, I.log[l0:], len(I.taint) > t0)
+        return out
 
 
-# ------------------------------------------------------------------ D2: Newmark
+def short(x, n=300):
+    s = repr(x)
+    return s if len(s) <= n else s[:n] + " ..."
 
-def _is_quadratic_form(ctx, fn_scope, argname):
-    """fn returns c * dot(arg, arg) with c independent of arg."""
-    rets = fn_scope.returns()
-    if len(rets) != 1:
-        return False
-    e = rets[0]
-    factors = []
 
-    def flat(x):
-        if isinstance(x, ast.BinOp) and isinstance(x.op, ast.Mult):
-            flat(x.left)
-            flat(x.right)
+def groups(W, syms):
+    """readable description of a set of base symbols"""
+    names = {"U": "the nodal field U", "UP": "UPredicted", "X": "the nodal coordinates", "N": "the shape functions", "dN": "the shape function gradients",
+             "w": "the quadrature volumes", "Q": "the internal variables", "dt": "dt", "beta": "the Newmark parameter beta", "gamma": "the Newmark parameter gamma",
+             "xg": "the quadrature points", "wg": "the quadrature weights", "V": "the velocity field"}
+    out = set()
+    for s in syms:
+        p = s.split("_")[0]
+        if p.startswith("rho"):
+            out.add("the mass density")
+        elif p.startswith("xiP"):
+            out.add(f"the pressure-projection interpolation of degree {p[3:]}")
+        elif p.startswith("HESS"):
+            out.add("an element Hessian")
         else:
-            factors.append(x)
-    flat(e)
-    ndot = 0
-    for f in factors:
-        names = {n.id for n in ast.walk(f) if isinstance(n, ast.Name)}
-        if isinstance(f, ast.Call) and dotted(f.func) in ("np.dot", "np.vdot", "np.inner") and len(f.args) == 2 \
-                and all(isinstance(a, ast.Name) and a.id == argname for a in f.args):
-            ndot += 1
-        elif isinstance(f, ast.BinOp) and isinstance(f.op, ast.MatMult) and \
-                all(isinstance(a, ast.Name) and a.id == argname for a in (f.left, f.right)):
-            ndot += 1
-        elif argname in names:
-            return False
-    return ndot == 1
+            out.add(names.get(p, p))
+    return sorted(out)
 
 
-def _density_terms(ctx, dens_scope, outer):
-    """Terms of a Lagrangian density closure: list of (kind, uses_field_value, uses_field_gradient)."""
-    ps = dens_scope.params()
-    rets = dens_scope.returns()
-    terms = []
-    if len(rets) != 1:
+# ------------------------------------------------------------------ reading the stiffness array
+
+def element_functions(S, ev: Ev):
+    """For every element e: [(coefficient Rat, request index)] such that the stiffness block of e is sum_k c_k * Hessian_k in the
+    layout of the request itself; (None, reason) when the array cannot be read that way; ('zero', ...) when a block is identically 0."""
+    K = ev.value
+    I = S.W.I
+    if not isinstance(K, Arr) or K.ndim < 1 or K.shape[0] != NE:
+        return None, f"the stiffness closure returns {short(K, 80)}, not an array with one block per element"
+    n2 = K.size() // NE
+    out = {}
+    for e in range(NE):
+        blk = K.data[e * n2:(e + 1) * n2]
+        if all(x.is_zero() for x in blk):
+            out[e] = "zero"
+            continue
+        coef = None
+        for i, x in enumerate(blk):
+            r = simplify(_A.norm(x.a))
+            if any(a.startswith("HESS") for a in r.d.atoms()):
+                return None, f"element {e}: a Hessian entry occurs in a denominator"
+            ci = {}
+            for m, c in r.n.t.items():
+                hs = [(a, ex) for a, ex in m if a.startswith("HESS")]
+                if len(hs) != 1 or hs[0][1] != 1:
+                    return None, f"element {e}: entry {i} is not a linear combination of Hessian entries ({short(r, 120)})"
+                k, j = hs[0][0][4:].split("_")
+                if int(j) != i:
+                    return None, f"element {e}: entry {i} of the block is entry {j} of a Hessian (permuted layout)"
+                rest = tuple(t for t in m if t[0] != hs[0][0])
+                ci.setdefault(int(k), {})[rest] = c
+            ci = {k: Rat(Poly(v), r.d) for k, v in ci.items()}
+            if coef is None:
+                coef = ci
+            elif set(ci) != set(coef) or any(not _A.is_zero(_A.norm(ci[k] - coef[k])) for k in ci):
+                return None, f"element {e}: the entries of the block combine Hessians with different coefficients"
+        out[e] = sorted(coef.items())
+    return out, None
+
+
+def element_sum(S, ef, elements=None):
+    """sum over the elements of sum_k c_k G_k; (Rat | None, error, log, tainted)"""
+    tot = Rat(Poly(), Poly.const(1))
+    log, tainted = [], False
+    for e in sorted(ef):
+        if elements is not None and e not in elements:
+            continue
+        if ef[e] == "zero":
+            continue
+        for k, c in ef[e]:
+            val, err, lg, tn = S.request(k)
+            if err:
+                return None, f"element {e}: cannot evaluate the differentiated function: {err}", log, tainted
+            tot = tot + c * val.a
+            log += lg
+            tainted = tainted or tn
+    return _A.norm(tot), None, log, tainted
+
+
+def report_exc(ctx, rule, scope, construct, ev_or_case, what, block_context=False):
+    """an evaluation failed: REFUTED when the failure is itself a derived defect, else UNDECIDED"""
+    exc = getattr(ev_or_case, "exc", None)
+    err = getattr(ev_or_case, "error", None)
+    if isinstance(exc, InfiniteRecursion):
+        ctx.refuted(T6H, scope, None, construct=construct + ":recursion", detail=f"{what}: {exc}")
+        return
+    if isinstance(exc, MappedSizeMismatch) and block_context:
+        ctx.refuted(T9, scope, None, construct=construct + ":mapped-operand",
+                    detail=f"{what}: jax.vmap of {exc.fname} receives per-element operands of different lengths {sorted(set(exc.sizes.values()))} "
+                           f"(positions {sorted(exc.sizes)}): an operand is not restricted to the block's elements")
+        return
+    ctx.undecided(rule, scope, None, construct=construct, detail=f"{what}: cannot interpret: {err}")
+
+
+# ------------------------------------------------------------------ D2: the two FunctionSpace integrators (contract of hook and density)
+
+def d2_paths(ctx, S):
+    rule = T6P
+    W, I = S.W, S.W.I
+    h_path = ctx.need(f"{FS}:integrate_element_from_local_field")
+    e_path = ctx.need(f"{FS}:integrate_over_block")
+    hook_calls, dens_calls = [], []
+
+    def hook(it, args, kw):
+        hook_calls.append(list(args) + [kw[k] for k in sorted(kw)])
+        return it.opaque("HOOK", hook_calls[-1], shape=(NQ, 3, 3))
+
+    def dens(it, args, kw):
+        dens_calls.append(list(args) + [kw[k] for k in sorted(kw)])
+        return it.opaque("L", dens_calls[-1])
+    H, L = PyFunc("gradient_hook", hook), PyFunc("lagrangian_density", dens)
+
+    def spec_hook(e):
+        u = [[W.U.get((CONNS[e][a], i)) for i in range(ND)] for a in range(NN)]
+        x = [[W.X.get((CONNS[e][a], i)) for i in range(ND)] for a in range(NN)]
+        raw = [[[sum((u[a][i] * W.dN.get((e, q, a, j)) for a in range(NN)), Dual(0)) for j in range(ND)] for i in range(ND)] for q in range(NQ)]
+        return [Arr.from_nested(raw), W.N.index(e), W.w.index(e), Arr.from_nested(u), Arr.from_nested(x)]
+
+    def spec_dens(e, q, hookval):
+        u = [sum((W.N.get((e, q, a)) * W.U.get((CONNS[e][a], i)) for a in range(NN)), Dual(0)) for i in range(ND)]
+        x = [sum((W.N.get((e, q, a)) * W.X.get((CONNS[e][a], i)) for a in range(NN)), Dual(0)) for i in range(ND)]
+        return [Arr.from_nested(u), hookval.index(q), W.Q.index((e, q)), Arr.from_nested(x), W.dt]
+    role_names = ["quadrature-point field gradients", "element shape functions", "element quadrature volumes", "element nodal field", "element nodal coordinates"]
+    dens_names = ["field value at the point", "(transformed) field gradient at the point", "internal variables of the point", "coordinates of the point", "dt"]
+
+    def first_mismatch(got, want):
+        """index of the first role that differs (None: all agree; -1: cannot compare)"""
+        if len(got) != len(want):
+            return -2
+        for i, (g, w_) in enumerate(zip(got, want)):
+            r = W.same(g, w_)
+            if r is None:
+                return -1
+            if not r:
+                return i
         return None
-    e = rets[0]
-    adds = []
 
-    def flat(x):
-        if isinstance(x, ast.BinOp) and isinstance(x.op, ast.Add):
-            flat(x.left)
-            flat(x.right)
-        else:
-            adds.append(x)
-    flat(e)
-    for t in adds:
-        s = src(t)
-        if "kinetic_energy_density" in s:
-            terms.append(("kinetic", t))
-        elif "strain_energy_density" in s or "compute_energy_density" in s:
-            terms.append(("strain", t))
-        else:
-            terms.append(("other", t))
-    return terms
-
-
-def d2_newmark(ctx):
-    rule = "D2/T6-newmark-term-fields"
-    lag = ctx.need(f"{M}:compute_newmark_lagrangian")
-    hes = ctx.need(f"{M}:_compute_newmark_element_hessians")
-    ked = ctx.need(f"{M}:kinetic_energy_density")
-    quad = _is_quadratic_form(ctx, ked, ked.params()[0])
-    ctx.decide("D2/T7-kinetic-quadratic", quad, ked, None, construct="kinetic_energy_density",
-               detail="kinetic energy density is c*dot(V,V) (constant Hessian)",
-               bad_detail="kinetic energy density is not a quadratic form c*dot(V,V); Newmark inertia term analysis invalid")
-    from .common import expand
-    cfg = cfg_of(lag)
-    iob = ctx.need(f"{FS}:integrate_over_block")
-    # energy side: field per term
-    efield = {}
-    for n in cfg.nodes:
-        if n.kind != "stmt" or n.ast is None:
-            continue
-        for call in [c for c in ast.walk(n.ast) if isinstance(c, ast.Call)]:
-            if dotted(call.func) and dotted(call.func).endswith("integrate_over_block"):
-                U = actual(call, iob.params(), "U")
-                func = actual(call, iob.params(), "func")
-                # which density reaches `func` here
-                kind = "other"
-                if isinstance(func, ast.Name):
-                    ds = cfg.reaching(n, func.id)
-                    for d in ds:
-                        if isinstance(d.ast, ast.FunctionDef):
-                            body = src(d.ast)
-                            kind = "kinetic" if "kinetic_energy_density" in body else kind
-                        elif isinstance(d.ast, ast.Assign) and "strain_energy_density_to_lagrangian_density" in src(d.ast.value):
-                            kind = "strain"
-                efield[kind] = src(expand(cfg, n, U))
-    if set(efield) != {"kinetic", "strain"}:
-        ctx.undecided(rule, lag, None, construct="energy-terms", detail=f"terms found: {efield}")
-        return
-    # hessian side
-    hcfg = cfg_of(hes)
-    wrapper = ctx.need(f"{M}:compute_element_stiffness_from_global_fields")
-    hcalls = []
-    for n in hcfg.nodes:
-        if n.kind != "stmt" or n.ast is None:
-            continue
-        for call in [c for c in ast.walk(n.ast) if isinstance(c, ast.Call)]:
-            vals = ctx.cg.expand(ctx.repo.resolve(call.func, hes))
-            if any(isinstance(v, FuncVal) and v.scope is wrapper for v in vals):
-                hcalls.append((n, call))
-    if not hcalls:
-        ctx.undecided(rule, hes, None, construct="hessian-calls", detail="no call of the element-stiffness kernel found")
-        return
-    hfield = {}
-    for (n, call) in hcalls:
-        U = actual(call, wrapper.params(), "U")
-        dens = actual(call, wrapper.params(), "lagrangian_density")
-        Ux = src(expand(hcfg, n, U))
-        terms = None
-        if isinstance(dens, ast.Name):
-            for d in hcfg.reaching(n, dens.id):
-                if isinstance(d.ast, ast.FunctionDef):
-                    sc = ctx.repo.scope_of(d.ast)
-                    terms = _density_terms(ctx, sc, hes)
-                elif isinstance(d.ast, ast.Assign) and "strain_energy_density_to_lagrangian_density" in src(d.ast.value):
-                    terms = [("strain", d.ast.value)]
-        if terms is None:
-            ctx.undecided(rule, hes, call, construct="hessian-density", detail=f"cannot classify density {src(dens)}")
+    def check_roles(path_scope, path, elements, hc, dc, value):
+        # hook: one call per element with the five contract roles (the order of the calls is irrelevant)
+        bad = und = None
+        hv = {}
+        for got in hc:
+            if len(got) != 5:
+                bad = f"gradient hook called with {len(got)} arguments"
+                break
+            res = {e: first_mismatch(got, spec_hook(e)) for e in elements}
+            hit = [e for e in elements if res[e] is None]
+            if hit:
+                if hit[0] in hv:
+                    bad = f"the gradient hook is called twice for element {hit[0]}"
+                    break
+                hv[hit[0]] = I.opaque("HOOK", got, shape=(NQ, 3, 3))
+                continue
+            if any(r == -1 for r in res.values()):
+                und = "an argument of the gradient hook is not a numeric value"
+                break
+            e, i = max(res.items(), key=lambda kv: kv[1])
+            bad = f"argument {i + 1} of the gradient hook must be the {role_names[i]} (element {e}); got {short(got[i], 160)}"
+            break
+        if bad is None and und is None and sorted(hv) != sorted(elements):
+            bad = f"the gradient hook is called for the elements {sorted(hv)}, the integral runs over {sorted(elements)}"
+        ctx.decide(rule, None if und else bad is None, path_scope, None, construct=f"{path}:hook-argument-roles",
+                   detail="hook(field gradients, shapes, volumes, nodal field, nodal coordinates) of the element",
+                   bad_detail=f"{path}: {und or bad}")
+        if bad or und:
             return
-        for (k, t) in terms:
-            hfield.setdefault(k, []).append(Ux)
-    for kind in ("kinetic", "strain"):
-        got = hfield.get(kind, [])
-        if not got:
-            ctx.refuted(rule, hes, None, construct=f"term:{kind}",
-                        detail=f"the Newmark element Hessian has no {kind} term although the Newmark energy has one")
+        seen = set()
+        for got in dc:
+            if len(got) != 5:
+                bad = f"density called with {len(got)} arguments"
+                break
+            loc = W.element_of_state(got[2])
+            cands = [p_ for p_ in loc if p_[0] in elements] or [(e, q) for e in elements for q in range(NQ)]
+            res = {p_: first_mismatch(got, spec_dens(p_[0], p_[1], hv[p_[0]])) for p_ in cands}
+            hit = [p_ for p_ in cands if res[p_] is None]
+            if hit:
+                if hit[0] in seen:
+                    bad = f"the density is evaluated twice at quadrature point {hit[0]}"
+                    break
+                seen.add(hit[0])
+                continue
+            if any(r == -1 for r in res.values()):
+                und = "an argument of the density is not a numeric value"
+                break
+            p_, i = max(res.items(), key=lambda kv: kv[1])
+            bad = f"argument {i + 1} of the density must be the {dens_names[i]} (element {p_[0]}, point {p_[1]}); got {short(got[i], 160)}"
+            break
+        if bad is None and und is None and len(seen) != len(elements) * NQ:
+            bad = f"{len(seen)} density evaluations for {len(elements) * NQ} quadrature points"
+        ctx.decide(rule, None if und else bad is None, path_scope, None, construct=f"{path}:density-call",
+                   detail="density(u, transformed grad u, q, x, dt) at every quadrature point",
+                   bad_detail=f"{path}: {und or bad}")
+        if bad or und:
+            return
+        want = Dual(0)
+        for e in elements:
+            for q in range(NQ):
+                want = want + I.opaque("L", spec_dens(e, q, hv[e])) * W.w.get((e, q))
+        ok = W.same(value, want)
+        ctx.decide(rule, ok, path_scope, None, construct=f"{path}:weights",
+                   detail="integral = sum over quadrature points of density * quadrature volume",
+                   bad_detail=f"{path}: the result is not the sum of density values weighted by the quadrature volumes of the same points: {short(value, 200)}")
+
+    for (bname, block, elements) in (("all", slice(None), list(range(NE))), ("ids", W.blocks["blockA"], BLOCKS["blockA"])):
+        # energy path
+        del hook_calls[:], dens_calls[:]
+        t0 = len(I.taint)
+        try:
+            val = I.call(W.fn(FS, "integrate_over_block"), [W.fs, W.U, W.Q, W.dt, L, block], {"modify_element_gradient": H})
+            if len(I.taint) > t0:
+                raise EvalError(f"uninterpretable kernel: {I.taint[-1]}")
+            check_roles(e_path, f"integrate_over_block[{bname}]", elements, list(hook_calls), list(dens_calls), val)
+        except MappedSizeMismatch as ex:
+            ctx.refuted(T9, e_path, None, construct=f"integrate_over_block[{bname}]:mapped-operand",
+                        detail=f"integrate_over_block over an index block: jax.vmap of {ex.fname} receives per-element operands of lengths "
+                               f"{sorted(set(ex.sizes.values()))}: an operand is not restricted by [block]")
+            val = None
+        except ERR as ex:
+            ctx.undecided(rule, e_path, None, construct=f"integrate_over_block[{bname}]", detail=f"cannot interpret: {type(ex).__name__}: {ex}")
+            val = None
+        if bname != "all":
             continue
-        for g in got:
-            same = _canon_fs(g) == _canon_fs(efield[kind])
-            exempt = (kind == "kinetic" and quad)
-            ctx.decide(rule, same or exempt, hes, hcalls[0][1], construct=f"term:{kind}",
-                       detail=f"{kind} term: energy at {efield[kind]}, Hessian at {g}" + (" (quadratic form: field-independent)" if exempt and not same else ""),
-                       bad_detail=f"{kind} energy term is evaluated at `{efield[kind]}` in compute_newmark_lagrangian "
-                                  f"but its Hessian at `{g}` in _compute_newmark_element_hessians")
-    if "other" in hfield:
-        ctx.undecided(rule, hes, None, construct="term:other", detail="unclassified term in the Newmark Hessian density")
+        # Hessian path: the element integral of the local field
+        del hook_calls[:], dens_calls[:]
+        t0 = len(I.taint)
+        try:
+            tot = Dual(0)
+            for e in elements:
+                u, x = spec_hook(e)[3], spec_hook(e)[4]
+                tot = tot + I.num(I.call(W.fn(FS, "integrate_element_from_local_field"),
+                                         [u, x, W.Q.index(e), W.dt, W.N.index(e), W.dN.index(e), W.w.index(e), L, H], {}))
+            if len(I.taint) > t0:
+                raise EvalError(f"uninterpretable kernel: {I.taint[-1]}")
+            check_roles(h_path, "integrate_element_from_local_field", elements, list(hook_calls), list(dens_calls), tot)
+            if val is not None:
+                ctx.decide(rule, W.same(val, tot), h_path, None, construct="energy-path==hessian-path",
+                           detail="integrate_over_block = sum over elements of integrate_element_from_local_field of the gathered nodal values",
+                           bad_detail="integrate_over_block and the sum of integrate_element_from_local_field over the elements differ "
+                                      f"(with the same density and gradient hook): {short(W.rat(val) - W.rat(tot), 240)}")
+        except ERR as ex:
+            ctx.undecided(rule, h_path, None, construct="integrate_element_from_local_field", detail=f"cannot interpret: {type(ex).__name__}: {ex}")
 
 
-# ------------------------------------------------------------------ D2: projection option guard
+# ------------------------------------------------------------------ D2: what the stiffness closures differentiate
 
-def d2_projection_guard(ctx):
-    """The projection degree 0 (piecewise-constant J) is an advertised value, so the option must be
-    tested for `is not None`; a truthiness test silently disables it for degree 0.  All sites that
-    branch on the option must agree (contradiction rule between sibling factories)."""
-    rule = "D2/T6-projection-option-guard"
-    sites = []
-    for q in ("create_mechanics_functions", "create_multi_block_mechanics_functions",
-              "define_pressure_projection_gradient_tranformation", "create_dynamics_functions"):
-        sc = ctx.need(f"{M}:{q}")
-        opt = [p for p in sc.params() if "projection" in p.lower()]
-        if not opt:
+def stiffness_of(ctx, S, case, rule, scope):
+    """(element functions, Ev) of the case's stiffness closure, or None after recording why not"""
+    ev = case.ev(STIFF[case.kind])
+    if ev.error:
+        report_exc(ctx, rule, scope, case.label, ev, STIFF[case.kind], block_context=case.kind == "multi")
+        return None, ev
+    ef, why = element_functions(S, ev)
+    if ef is None:
+        ctx.undecided(rule, scope, None, construct=case.label, detail=f"{STIFF[case.kind]}: {why}")
+        return None, ev
+    return ef, ev
+
+
+def d2_hess_wiring(ctx, S):
+    rule = T5
+    W, I = S.W, S.W.I
+    n_done = 0
+    for fac in FACTORIES:
+        scope = S.scopes[fac]
+        case = S.case(fac, "plane strain", None)
+        if case.fns is None:
+            ctx.undecided(rule, scope, None, construct=f"{fac}:factory", detail=f"cannot build the factory: {case.error or case.rejected}")
             continue
-        for st in walk_local(sc.node):
-            tests = []
-            if isinstance(st, (ast.If, ast.While)):
-                tests.append(st.test)
-            elif isinstance(st, ast.IfExp):
-                tests.append(st.test)
-            for t in tests:
-                names = {n.id for n in ast.walk(t) if isinstance(n, ast.Name)}
-                if opt[0] in names:
-                    sites.append((sc, t, opt[0]))
-    if len(sites) < 3:
-        raise Incomplete(f"{len(sites)} branches on the pressure-projection option found (3 on the reference tree)")
-    for (sc, t, o) in sites:
-        ok = isinstance(t, ast.Compare) and len(t.ops) == 1 and isinstance(t.ops[0], (ast.IsNot, ast.Is)) \
-            and isinstance(t.left, ast.Name) and t.left.id == o and isinstance(t.comparators[0], ast.Constant) \
-            and t.comparators[0].value is None
-        ctx.decide(rule, ok, sc, t, construct=f"guard:{sc.name}",
-                   detail=f"option tested as `{src(t)}`",
-                   bad_detail=f"pressure projection option is tested as `{src(t)}`; degree 0 is a valid value, so only "
-                              f"`{o} is not None` selects the projection consistently with the sibling factories")
+        ef, ev = stiffness_of(ctx, S, case, rule, scope)
+        if ef is None:
+            continue
+        n_done += 1
+        zero = [e for e in ef if ef[e] == "zero"]
+        ctx.decide(rule, not zero, scope, None, construct=f"{fac}:every-element-has-a-hessian",
+                   detail=f"{STIFF[case.kind]} returns, for each of the {NE} elements, a combination of jax.hessian results in their own layout",
+                   bad_detail=f"{STIFF[case.kind]}: the blocks of elements {zero} are identically zero (no Hessian is stored for them)")
+        bad_arg = bad_dep = bad_fn = und_arg = None
+        for e in sorted(ef):
+            if ef[e] == "zero":
+                continue
+            for k, c in ef[e]:
+                r = I.hess[k]
+                a0 = r["args"][r["argnum"]]
+                want = Arr.from_nested([[W.U.get((CONNS[e][a], i)) for i in range(ND)] for a in range(NN)])
+                if not isinstance(a0, Arr) or a0.size() != want.size():
+                    und_arg = und_arg or (f"element {e}: jax.hessian differentiates w.r.t. argument {r['argnum']} of shape {getattr(a0, 'shape', None)}, "
+                                          f"not the {NN}x{ND} nodal values of one element: layout of the stiffness block not recognised")
+                    continue
+                shift = [_A.norm(x.a - y.a) for x, y in zip(a0.data, want.data)]
+                dep = set()
+                for s_ in shift:
+                    dep |= I.deps_of_rat(s_) & W.usyms
+                if dep:
+                    bad_arg = bad_arg or (f"element {e}: jax.hessian differentiates w.r.t. argument {r['argnum']} = {short(a0, 200)}; that is not U[conns[{e}],:] "
+                                          f"(the dofs the assembler attributes to the block) plus a U-independent shift")
+                others = set()
+                for j, a in enumerate(r["args"]):
+                    if j != r["argnum"]:
+                        try:
+                            others |= I.deps(a) & W.usyms
+                        except ERR:
+                            pass
+                for a in r["kwargs"].values():
+                    others |= I.deps(a) & W.usyms
+                if others or (I.deps_of_rat(c) & W.usyms):
+                    bad_dep = bad_dep or f"element {e}: an argument that is not differentiated (or the coefficient of the Hessian) depends on U ({sorted(others)[:4]}): that dependence is missing from the stiffness"
+                val, err, _, _ = S.request(k)
+                if err:
+                    bad_fn = bad_fn or f"element {e}: {err}"
+        if ev.tainted:        # a kernel could not be interpreted: differences are not reliable
+            und_arg, bad_arg = und_arg or bad_arg, None
+            bad_fn, bad_dep = bad_fn or bad_dep, None
+        ctx.decide(rule, False if bad_arg else (None if und_arg else True), scope, None, construct=f"{fac}:differentiated-argument",
+                   detail="the Hessian is taken w.r.t. the element's own nodal values U[conns[e],:] in (node, component) layout",
+                   bad_detail=f"{STIFF[case.kind]}: {bad_arg or und_arg}")
+        ctx.decide(rule, bad_dep is None, scope, None, construct=f"{fac}:other-arguments-independent-of-U",
+                   detail="no other argument of the differentiated function depends on U",
+                   bad_detail=f"{STIFF[case.kind]}: {bad_dep}")
+        ctx.decide(rule, None if bad_fn else True, scope, None, construct=f"{fac}:scalar-element-function",
+                   detail="the differentiated function evaluates to a scalar at the actual arguments",
+                   bad_detail=f"{STIFF[case.kind]}: {bad_fn}")
+    if n_done == 0:
+        raise Incomplete("no stiffness closure could be read")
+
+
+# ------------------------------------------------------------------ D2: energy vs differentiated function, per factory and option
+
+def compare_energy(ctx, S, case, scope):
+    """D = E - sum_e F_e and its diagnosis; None when something could not be evaluated (already recorded under T6F)"""
+    W, I = S.W, S.W.I
+    if case.rejected is not None:
+        return "rejected"
+    if case.fns is None:
+        report_exc(ctx, T6F, scope, case.label, case, "factory")
+        return None
+    ee = case.ev(ENERGY[case.kind])
+    if ee.error:
+        report_exc(ctx, T6F, scope, case.label, ee, ENERGY[case.kind], block_context=case.kind == "multi")
+        return None
+    ef, ev = stiffness_of(ctx, S, case, T6F, scope)
+    if ef is None:
+        return None
+    try:
+        E = W.rat(ee.value)
+    except ERR as ex:
+        ctx.undecided(T6F, scope, None, construct=case.label, detail=f"{ENERGY[case.kind]} does not return a scalar: {ex}")
+        return None
+    F, err, flog, ftaint = element_sum(S, ef)
+    if err:
+        ctx.undecided(T6F, scope, None, construct=case.label, detail=err)
+        return None
+    D = _A.norm(E - F)
+    bad = W.nonaffine(D)
+    return {"E": E, "F": F, "D": D, "bad": bad, "tainted": ee.tainted or ev.tainted or ftaint, "ef": ef, "elog": ee.log, "flog": flog}
+
+
+def nonaffine_part(W, r: Rat):
+    """the monomials of r that are not affine in U, over r's own denominator"""
+    I = W.I
+    r = simplify(_A.norm(r))
+    keep = {}
+    for m, c in r.n.t.items():
+        deg = 0
+        for k, e in m:
+            if k in W.usyms:
+                deg += e
+            elif I.atom_deps.get(k, frozenset()) & W.usyms:
+                deg += 2
+        if deg > 1:
+            keep[m] = c
+    return Rat(Poly(keep), r.d)
+
+
+def diagnose(S, res):
+    W, I = S.W, S.W.I
+    E, F, bad = res["E"], res["F"], res["bad"]
+    dE = I.deps_of_rat(nonaffine_part(W, E)) - W.usyms
+    dF = I.deps_of_rat(nonaffine_part(W, F)) - W.usyms
+    msgs = []
+    onlyE, onlyF = groups(W, dE - dF), groups(W, dF - dE)
+    if onlyE:
+        msgs.append(f"only the energy's U-dependent part involves {', '.join(onlyE)}")
+    if onlyF:
+        msgs.append(f"only the differentiated function's U-dependent part involves {', '.join(onlyF)}")
+    labels = sorted({I.atom_info[k.split('.')[0]][0] if k.split('.')[0] in I.atom_info else k for m in bad if m[0] != "denominator" for k in m[1]})
+    if labels:
+        nice = [("the strain energy density of material " + x[3:]) if x.startswith("SE:") else x for x in labels]
+        msgs.append(f"{', '.join(nice)} is evaluated at different arguments (gradient / state / time step) on the two sides and does not cancel")
+    elif bad and bad[0][0] != "denominator":
+        msgs.append("the polynomial (inertia) parts differ by a term that is quadratic in U: " + short(Rat(Poly({m[0]: m[2] for m in bad[:2]})), 160))
+    return "; ".join(msgs)
+
+
+def d2_factories(ctx, S):
+    rule = T6F
+    W, I = S.W, S.W.I
+    n_done = 0
+    for fac in FACTORIES:
+        scope = S.scopes[fac]
+        for mode in MODES:
+            for deg in DEGREES:
+                case = S.case(fac, mode, deg)
+                res = compare_energy(ctx, S, case, scope)
+                if res == "rejected":
+                    ctx.proved(rule, scope, None, construct=case.label, detail=f"option combination rejected explicitly ({case.rejected})")
+                    continue
+                if res is None:
+                    continue
+                n_done += 1
+                if not res["bad"]:
+                    ctx.proved(rule, scope, None, construct=case.label,
+                               detail=f"{ENERGY[case.kind]}(U) - sum_e (function differentiated by {STIFF[case.kind]})(U) is affine in U")
+                elif res["tainted"]:
+                    ctx.undecided(rule, scope, None, construct=case.label,
+                                  detail=f"energy and differentiated function differ, but a kernel could not be interpreted ({I.taint[-1][0]}: {I.taint[-1][1]})")
+                else:
+                    ctx.refuted(rule, scope, None, construct=case.label,
+                                detail=f"{fac}(mode2D={mode!r}, pressureProjectionDegree={deg}): {STIFF[case.kind]} is not the Hessian of {ENERGY[case.kind]}: "
+                                       f"{diagnose(S, res)}")
+    if n_done == 0:
+        raise Incomplete("no factory could be evaluated")
+    # the adapter between material energy densities and Lagrangian densities
+    ad = ctx.repo.find(f"{M}:strain_energy_density_to_lagrangian_density")
+    if ad is not None:
+        ctx.touch(ad)
+        try:
+            mat = W.material("A")
+            Ld = I.call(W.fn(M, "strain_energy_density_to_lagrangian_density"), [mat.get("compute_energy_density")], {})
+            u, g, q, x = I.sym_arr("au", (ND,)), I.sym_arr("ag", (3, 3)), I.sym_arr("aq", (NSTATE,)), I.sym_arr("ax", (ND,))
+            got = I.call(Ld, [u, g, q, x, W.dt], {})
+            want = I.opaque("SE:A", [g, q, W.dt])
+            ctx.decide(rule, W.same(got, want), ad, None, construct="lagrangian-adapter",
+                       detail="L(U, gradU, Q, X, dt) = density(gradU, Q, dt)",
+                       bad_detail=f"the Lagrangian adapter does not forward (gradU, Q, dt) to the strain energy density: L(u, g, q, x, dt) = {short(got, 160)}")
+        except ERR as ex:
+            ctx.undecided(rule, ad, None, construct="lagrangian-adapter", detail=f"cannot interpret: {ex}")
+
+
+def d2_newmark(ctx, S):
+    rule = T6N
+    W, I = S.W, S.W.I
+    fac = "create_dynamics_functions"
+    scope = S.scopes[fac]
+    n_done = 0
+    for mode in MODES:
+        for deg in (None, 1):
+            case = S.case(fac, mode, deg)
+            if case.rejected is not None:
+                continue
+            if case.fns is None or case.ev(ENERGY["dyn"]).error or case.ev(STIFF["dyn"]).error:
+                ctx.undecided(rule, scope, None, construct=case.label, detail="the dynamics factory could not be evaluated (see D2/T6-factory-energy-vs-stiffness)")
+                continue
+            ef, why = element_functions(S, case.ev(STIFF["dyn"]))
+            if ef is None:
+                ctx.undecided(rule, scope, None, construct=case.label, detail=why)
+                continue
+            F, err, _, ftaint = element_sum(S, ef)
+            if err:
+                ctx.undecided(rule, scope, None, construct=case.label, detail=err)
+                continue
+            n_done += 1
+            E = W.rat(case.ev(ENERGY["dyn"]).value)
+            D = _A.norm(E - F)
+            bad = W.nonaffine(D)
+            tainted = ftaint or case.ev(ENERGY["dyn"]).tainted or case.ev(STIFF["dyn"]).tainted
+            strain_bad = [b for b in bad if b[0] != "denominator" and b[1]]
+            kin_bad = [b for b in bad if b[0] == "denominator" or not b[1]]
+
+            def where(r):
+                """fields the material's arguments depend on"""
+                out = set()
+                for a in r.atoms():
+                    base = a.split(".")[0]
+                    if base in I.atom_info and I.atom_info[base][0].startswith("SE:"):
+                        out |= {s.split("_")[0] for s in I.atom_info[base][2] if s.split("_")[0] in ("U", "UP")}
+                return " and ".join(sorted({"U": "U", "UP": "UPredicted"}[x] for x in out)) or "no nodal field"
+            ctx.decide(rule, (not strain_bad) if not (strain_bad and tainted) else None, scope, None, construct=f"{case.label}:term:strain",
+                       detail="the strain-energy term of the energy and of the differentiated function is evaluated at the same nodal field",
+                       bad_detail=f"strain energy term: the algorithmic energy evaluates the material at gradients of {where(E)}, the function differentiated by "
+                                  f"compute_element_hessians at gradients of {where(F)}: the Hessian is linearised about a different point")
+            ctx.decide(rule, (not kin_bad) if not (kin_bad and tainted) else None, scope, None, construct=f"{case.label}:term:kinetic",
+                       detail="the inertia terms differ by at most an affine function of U (quadratic form: evaluation point irrelevant)",
+                       bad_detail="inertia term: energy and differentiated function differ by a term quadratic in U: "
+                                  + diagnose(S, {"E": E, "F": F, "D": D, "bad": kin_bad}))
+    if n_done == 0:
+        raise Incomplete("the dynamics factory could not be evaluated")
+    # T7: the kinetic energy is a quadratic form in the velocity field
+    case = S.case(fac, "plane strain", None)
+    ke = case.ev("compute_output_kinetic_energy")
+    if ke.error:
+        ctx.undecided(T7, scope, None, construct="kinetic-energy", detail=f"compute_output_kinetic_energy: {ke.error}")
+    else:
+        vs = frozenset(a for x in S.V.data for a in x.a.n.atoms())
+        r = W.rat(ke.value)
+        deg_ok = not I.deps_of_rat(Rat(r.d)) & vs
+        top = 0
+        for m_, c in r.n.t.items():
+            d_ = 0
+            for k, e in m_:
+                if k in vs:
+                    d_ += e
+                elif I.atom_deps.get(k, frozenset()) & vs:
+                    d_ += 99
+            top = max(top, d_)
+        ctx.decide(T7, deg_ok and top == 2, scope, None, construct="kinetic_energy_density",
+                   detail="the kinetic energy is a polynomial of degree 2 in the velocity field (constant Hessian)",
+                   bad_detail=f"the kinetic energy is not a quadratic form of the velocity field (degree {top if top < 99 else 'non-polynomial'}): "
+                              "the Newmark inertia term analysis is invalid")
+    ked = ctx.repo.find(f"{M}:kinetic_energy_density")
+    if ked is not None:
+        ctx.touch(ked)
+
+
+# ------------------------------------------------------------------ D2: one gradient transformation per factory
+
+def kinematics(S, case, field):
+    """{(e, q): key of the displacement gradient handed to the material} for one closure; None if it does not call the material.
+    (error string on failure).  The locator (e, q) is read from the internal variables passed along."""
+    W, I = S.W, S.W.I
+    ev = case.ev(field)
+    if ev.error:
+        return ev.error, ev
+    log = list(ev.log)
+    if field == STIFF[case.kind]:
+        ef, why = element_functions(S, ev)
+        if ef is None:
+            return why, ev
+        _, err, lg, tn = element_sum(S, ef)
+        if err:
+            return err, ev
+        log += lg
+        ev.tainted = ev.tainted or tn
+    out = {}
+    for kind, mat, args in log:
+        if len(args) < 2:
+            continue
+        loc = W.element_of_state(args[1])
+        if len(loc) != 1:
+            continue
+        try:
+            out.setdefault(next(iter(loc)), set()).add(S.canon(args[0]))
+        except ERR:
+            return "gradient argument of the material is not a value", ev
+    return (out or None), ev
+
+
+def d2_kinematics(ctx, S):
+    rule = T6H
+    W, I = S.W, S.W.I
+    n_done = 0
+    for fac in FACTORIES:
+        scope = S.scopes[fac]
+        kind = KIND[fac]
+        for (mode, deg) in (("plane strain", 1),):
+            case = S.case(fac, mode, deg)
+            if case.fns is None:
+                if isinstance(case.exc, InfiniteRecursion):
+                    report_exc(ctx, rule, scope, case.label, case, "factory")
+                else:
+                    ctx.undecided(rule, scope, None, construct=case.label, detail=f"cannot build the factory: {case.error or case.rejected}")
+                continue
+            ref, rev = kinematics(S, case, ENERGY[kind])
+            if not isinstance(ref, dict):
+                if isinstance(rev.exc, InfiniteRecursion):
+                    report_exc(ctx, rule, scope, case.label, rev, ENERGY[kind])
+                else:
+                    ctx.undecided(rule, scope, None, construct=f"{case.label}:{ENERGY[kind]}", detail=f"cannot read the kinematics of the energy closure: {ref}")
+                continue
+            full = len(ref) == NE * NQ and all(len(v) == 1 for v in ref.values())
+            ctx.decide(rule, True if full else None, scope, None, construct=f"{fac}:{ENERGY[kind]}:gradient-transformation",
+                       detail="reference: one displacement gradient per quadrature point reaches the material",
+                       bad_detail=f"the energy closure evaluates the material at {len(ref)} of {NE * NQ} quadrature points")
+            n_done += 1
+            for field in case.fns.fields:
+                if field == ENERGY[kind] or field not in FIELD_ARGS[kind] or case.fns.get(field) is None:
+                    continue
+                got, ev = kinematics(S, case, field)
+                if got is None:
+                    continue          # the closure does not evaluate the material model
+                if not isinstance(got, dict):
+                    if isinstance(ev.exc, (InfiniteRecursion, MappedSizeMismatch)):
+                        report_exc(ctx, rule, scope, f"{fac}:{field}", ev, field, block_context=kind == "multi")
+                    else:
+                        ctx.undecided(rule, scope, None, construct=f"{fac}:{field}:gradient-transformation", detail=f"cannot interpret {field}: {got}")
+                    continue
+                diff = sorted(p for p in got if p not in ref or got[p] != ref[p])
+                ok = not diff
+                if not ok and (ev.tainted or rev.tainted):
+                    ok = None
+                ctx.decide(rule, ok, scope, None, construct=f"{fac}:{field}:gradient-transformation",
+                           detail=f"{field} hands the material the same displacement gradients as {ENERGY[kind]} (with pressureProjectionDegree={deg})",
+                           bad_detail=f"{fac}(mode2D={mode!r}, pressureProjectionDegree={deg}): {field} evaluates the material at displacement gradients that differ from those "
+                                      f"of {ENERGY[kind]} at quadrature points {diff[:3]}: the closures of one factory use different gradient transformations "
+                                      f"(energy, derivatives and state update would see different kinematics)")
+    if n_done == 0:
+        raise Incomplete("no factory could be evaluated with a pressure projection")
+
+
+# ------------------------------------------------------------------ D2: the projection option (degree 0 is a value, None is 'off')
+
+def d2_projection_guard(ctx, S):
+    rule = T6G
+    W, I = S.W, S.W.I
+    mode = "plane strain"
+    sigs = {}
+    for fac in FACTORIES:
+        for deg in DEGREES:
+            case = S.case(fac, mode, deg)
+            k, ev = (case.error or case.rejected, None) if case.fns is None else kinematics(S, case, ENERGY[KIND[fac]])
+            sigs[(fac, deg)] = k if isinstance(k, dict) and not ev.tainted else None
+    n_done = 0
+    for fac in FACTORIES:
+        scope = S.scopes[fac]
+        off, d0, d1_ = sigs[(fac, None)], sigs[(fac, 0)], sigs[(fac, 1)]
+        if off is None or d0 is None or d1_ is None:
+            ctx.undecided(rule, scope, None, construct=f"guard:{fac}", detail="the factory could not be evaluated (or only with uninterpreted kernels) for pressureProjectionDegree in (None, 0, 1)")
+            continue
+        n_done += 1
+        if d1_ == off:
+            ctx.undecided(rule, scope, None, construct=f"guard:{fac}", detail="pressureProjectionDegree=1 has no effect on the kinematics: cannot tell the option's switch")
+            continue
+        ctx.decide(rule, d0 != off, scope, None, construct=f"guard:{fac}",
+                   detail="pressureProjectionDegree=0 switches the projection on (like degree 1); only None switches it off",
+                   bad_detail=f"{fac}: with pressureProjectionDegree=0 (piecewise-constant J, a valid degree) the material receives exactly the un-projected "
+                              f"displacement gradients of pressureProjectionDegree=None, while degree 1 is projected: the option is tested for truthiness "
+                              f"instead of `is not None`, degree 0 is silently ignored")
+    ref = FACTORIES[0]
+    for fac in FACTORIES[1:]:
+        scope = S.scopes[fac]
+        for deg in (0, 1):
+            a, b = sigs[(ref, deg)], sigs[(fac, deg)]
+            if a is None or b is None:
+                continue
+            ctx.decide(rule, a == b, scope, None, construct=f"siblings:{ref}~{fac}:degree={deg}",
+                       detail=f"same kinematics as {ref} for pressureProjectionDegree={deg}",
+                       bad_detail=f"with pressureProjectionDegree={deg} (mode2D={mode!r}) {fac} hands the material other displacement gradients than {ref}: "
+                                  f"the sibling factories interpret the option differently")
+    if n_done == 0:
+        raise Incomplete("no factory could be evaluated for the projection option")
+
+
+# ------------------------------------------------------------------ D2: mode2D
+
+def d2_modes(ctx, S):
+    rule = T14
+    W, I = S.W, S.W.I
+
+    def spec(mode, e, q):
+        g = [[Dual(0)] * 3 for _ in range(3)]
+        for i in range(ND):
+            for j in range(ND):
+                g[i][j] = sum((W.U.get((CONNS[e][a], i)) * W.dN.get((e, q, a, j)) for a in range(NN)), Dual(0))
+        if mode == "axisymmetric":
+            ur = sum((W.N.get((e, q, a)) * W.U.get((CONNS[e][a], 0)) for a in range(NN)), Dual(0))
+            r = sum((W.N.get((e, q, a)) * W.X.get((CONNS[e][a], 0)) for a in range(NN)), Dual(0))
+            g[2][2] = ur / r
+        return S.canon(Arr.from_nested(g))
+    n_done = 0
+    for fac in FACTORIES:
+        scope = S.scopes[fac]
+        for mode in MODES:
+            case = S.case(fac, mode, None)
+            if case.rejected is not None:
+                ctx.proved(rule, scope, None, construct=f"{fac}:{mode}", detail=f"mode rejected explicitly ({case.rejected})")
+                continue
+            if case.fns is None:
+                ctx.undecided(rule, scope, None, construct=f"{fac}:{mode}", detail=f"cannot build the factory: {case.error}")
+                continue
+            got, ev = kinematics(S, case, ENERGY[KIND[fac]])
+            if not isinstance(got, dict):
+                ctx.undecided(rule, scope, None, construct=f"{fac}:{mode}", detail=f"cannot read the kinematics: {got}")
+                continue
+            n_done += 1
+            bad = sorted(p for p in got if got[p] != {spec(mode, *p)})
+            what = "[[grad u, 0], [0, u_r/r]] (hoop strain from the interpolated radial displacement and radius)" if mode == "axisymmetric" else "[[grad u, 0], [0, 0]]"
+            ok = (not bad and len(got) == NE * NQ)
+            if not ok and ev.tainted:
+                ok = None
+            ctx.decide(rule, ok, scope, None, construct=f"{fac}:{mode}",
+                       detail=f"'{mode}': the material receives {what}",
+                       bad_detail=f"{fac}: with mode2D='{mode}' the displacement gradient handed to the material is not {what} at quadrature points {bad[:3]}"
+                                  + ("; the axisymmetric idealisation needs the hoop strain (volumes carry the 2 pi r weight)" if mode == "axisymmetric" else
+                                     "; only the axisymmetric idealisation has an out-of-plane strain"))
+    if n_done == 0:
+        raise Incomplete("no factory could be evaluated")
 
 
 # ------------------------------------------------------------------ D3: blocks
 
-def d3_blocks(ctx):
-    rule = "D3/T9-block-restricted"
-    targets = [f"{M}:_compute_strain_energy_multi_block", f"{M}:_compute_updated_internal_variables_multi_block",
-               f"{M}:_compute_initial_state_multi_block", f"{M}:_compute_element_stiffnesses_multi_block",
-               f"{M}:create_multi_block_mechanics_functions.compute_output_energy_densities_and_stresses"]
-    n_loops = 0
-    for q in targets:
-        sc = ctx.need(q)
-        for st in walk_local(sc.node):
-            if not isinstance(st, ast.For) or not isinstance(st.target, ast.Name):
-                continue
-            key = st.target.id
-            body_nodes = []
-            for b in st.body:
-                body_nodes.extend(ast.walk(b))
-            # names holding this block's element ids
-            E = set()
-            for b in st.body:
-                if isinstance(b, ast.Assign) and len(b.targets) == 1 and isinstance(b.targets[0], ast.Name):
-                    v = b.value
-                    if isinstance(v, ast.Subscript) and isinstance(v.value, ast.Attribute) and v.value.attr == "blocks" \
-                            and isinstance(v.slice, ast.Name) and v.slice.id == key:
-                        E.add(b.targets[0].id)
-            uses_models = [n for n in body_nodes if isinstance(n, ast.Subscript) and isinstance(n.value, ast.Name)
-                           and n.value.id in ("blockModels", "materialModels")]
-            if not E:
-                # the loops that only size the state array do not touch element data
-                touches = any(isinstance(n, ast.Subscript) and not (isinstance(n.value, ast.Name) and n.value.id in ("blockModels", "materialModels"))
-                              and not (isinstance(n.value, ast.Attribute) and n.value.attr == "shape")
-                              for n in body_nodes)
-                if touches:
-                    ctx.undecided(rule, sc, st, construct=f"loop:{key}", detail="per-block loop without `mesh.blocks[key]` ids")
-                continue
-            n_loops += 1
-            # (a) model selected by the same key
-            for u in uses_models:
-                ok = isinstance(u.slice, ast.Name) and u.slice.id == key
-                ctx.decide(rule, ok, sc, u, construct=f"model-key:{src(u)}",
-                           detail="material model selected by the loop's block key",
-                           bad_detail=f"material model selected by `{src(u.slice)}` inside the loop over `{key}`")
-            # restricted names: X = Y[elemIds] (and reshapes thereof)
-            restricted = set()
-            changed = True
-            while changed:
-                changed = False
-                for b in st.body:
-                    if isinstance(b, ast.Assign) and len(b.targets) == 1 and isinstance(b.targets[0], ast.Name):
-                        t = b.targets[0].id
-                        if t in restricted:
-                            continue
-                        if _is_restricted(b.value, E, restricted):
-                            restricted.add(t)
-                            changed = True
-            # (b) vmapped kernels: mapped operands restricted
-            for b in st.body:
-                for call in [c for c in ast.walk(b) if isinstance(c, ast.Call)]:
-                    axes = None
-                    f = call.func
-                    if isinstance(f, ast.Name):
-                        # f = vmap(kernel, in_axes) defined in the loop body
-                        for b2 in st.body:
-                            if isinstance(b2, ast.Assign) and isinstance(b2.targets[0], ast.Name) and b2.targets[0].id == f.id \
-                                    and isinstance(b2.value, ast.Call) and dotted(b2.value.func) in ("vmap", "jax.vmap"):
-                                axes = b2.value.args[1] if len(b2.value.args) > 1 else None
-                    elif isinstance(f, ast.Call) and dotted(f.func) in ("vmap", "jax.vmap"):
-                        axes = f.args[1] if len(f.args) > 1 else None
-                    if isinstance(axes, ast.Tuple):
-                        for ax, a in zip(axes.elts, call.args):
-                            if isinstance(ax, ast.Constant) and ax.value == 0:
-                                ok = _is_restricted(a, E, restricted)
-                                ctx.decide(rule, ok, sc, a, construct=f"mapped-operand:{src(a)}",
-                                           detail="per-element operand restricted to the block",
-                                           bad_detail=f"per-element operand `{src(a)}` of the block kernel is not restricted by {sorted(E)}")
-                    d = dotted(f) or ""
-                    if d.endswith("integrate_over_block") or d.endswith("evaluate_on_block"):
-                        tgt = ctx.need(f"{FS}:{d.split('.')[-1]}")
-                        blk = actual(call, tgt.params(), "block")
-                        ok = isinstance(blk, ast.Name) and blk.id in E
-                        ctx.decide(rule, ok, sc, call, construct=f"block-arg:{d.split('.')[-1]}",
-                                   detail=f"block argument is {src(blk)}",
-                                   bad_detail=f"block argument `{src(blk)}` is not this block's element ids {sorted(E)}")
-                    # (c) scatter .at[ids ...].set(...)
-                    if isinstance(f, ast.Attribute) and f.attr in ("set", "add") and isinstance(f.value, ast.Subscript) \
-                            and isinstance(f.value.value, ast.Attribute) and f.value.value.attr == "at":
-                        idx = f.value.slice
-                        first = idx.elts[0] if isinstance(idx, ast.Tuple) else idx
-                        ok = isinstance(first, ast.Name) and first.id in E
-                        ctx.decide(rule, ok, sc, call, construct=f"scatter:{src(f.value.value.value)}",
-                                   detail=f"scattered back with {src(first)}",
-                                   bad_detail=f"block result scattered with `{src(first)}`, not the block's element ids {sorted(E)}")
-    if n_loops < 5:
-        raise Incomplete(f"only {n_loops} per-block loops with element ids found (5 confirmed by hand)")
-    # FunctionSpace.evaluate_on_block: every mapped operand is restricted by [block]
-    ev = ctx.need(f"{FS}:evaluate_on_block")
-    cfg = cfg_of(ev)
-    from .common import expand
-    done = False
-    for n in cfg.nodes:
-        if n.kind != "stmt" or n.ast is None:
-            continue
-        for call in [c for c in ast.walk(n.ast) if isinstance(c, ast.Call)]:
-            if isinstance(call.func, ast.Name):
-                fdef = expand(cfg, n, call.func)
-                if isinstance(fdef, ast.Call) and dotted(fdef.func) in ("jax.vmap", "vmap") and len(fdef.args) > 1 \
-                        and isinstance(fdef.args[1], ast.Tuple):
-                    done = True
-                    for ax, a in zip(fdef.args[1].elts, call.args):
-                        if isinstance(ax, ast.Starred) or isinstance(a, ast.Starred):
-                            break
-                        if isinstance(ax, ast.Constant) and ax.value == 0:
-                            ok = isinstance(a, ast.Subscript) and isinstance(a.slice, ast.Name) and a.slice.id == "block"
-                            ctx.decide(rule, ok, ev, a, construct=f"mapped-operand:{src(a)}",
-                                       detail="restricted by [block]",
-                                       bad_detail=f"per-element operand `{src(a)}` of evaluate_on_block is not restricted by [block]")
-    if not done:
-        ctx.undecided(rule, ev, None, construct="evaluate_on_block", detail="vmapped element kernel call not found")
+def element_part(W, r: Rat, elements):
+    """the part of an integral that belongs to the given elements (monomials carrying a quadrature volume of those elements);
+    None if a monomial carries no or several elements' volumes"""
+    r = simplify(_A.norm(r))
+    if any(a.startswith("w_") for a in r.d.atoms()):
+        return None
+    keep = {}
+    for m, c in r.n.t.items():
+        es = {int(a.split("_")[1]) for a, _ in m if a.startswith("w_")}
+        if len(es) != 1:
+            return None
+        if next(iter(es)) in elements:
+            keep[m] = c
+    return Rat(Poly(keep), r.d)
 
 
-def _is_restricted(e, E, restricted):
-    if isinstance(e, ast.Name):
-        return e.id in restricted
-    if isinstance(e, ast.Subscript):
-        idx = e.slice
-        first = idx.elts[0] if isinstance(idx, ast.Tuple) else idx
-        if isinstance(first, ast.Name) and first.id in E:
-            return True
+def rows_equal(W, a, b, rows):
+    a, b = W.I.num(a), W.I.num(b)
+    if not isinstance(a, Arr) or not isinstance(b, Arr) or a.shape != b.shape:
         return False
-    if isinstance(e, ast.Call) and isinstance(e.func, ast.Attribute) and e.func.attr in ("reshape", "ravel"):
-        return _is_restricted(e.func.value, E, restricted)
-    return False
+    return all(W.same(a.index(e), b.index(e)) for e in rows)
+
+
+def d3_blocks(ctx, S):
+    rule = T9
+    W, I = S.W, S.W.I
+    mfac, sfac = "create_multi_block_mechanics_functions", "create_mechanics_functions"
+    scope = S.scopes[mfac]
+    mode = "plane strain"
+    n_done = 0
+    mats = ("A", "B")
+    for deg in (None, 1):
+        multi = S.case(mfac, mode, deg, mats)
+        same = S.case(mfac, mode, deg, ("A", "A"))
+        singles = {m: S.case(sfac, mode, deg, m) for m in mats}
+        tag = f"degree={deg}"
+        if multi.fns is None or any(c.fns is None for c in singles.values()):
+            ctx.undecided(rule, scope, None, construct=f"factories:{tag}", detail=f"cannot build the factories: {multi.error or multi.rejected or [c.error for c in singles.values()]}")
+            continue
+        n_done += 1
+        # ---- energy, block by block
+        me = multi.ev("compute_strain_energy")
+        if me.error:
+            report_exc(ctx, rule, scope, f"energy:{tag}", me, "compute_strain_energy", block_context=True)
+        else:
+            for (b, els), m in zip(BLOCKS.items(), mats):
+                se = singles[m].ev("compute_strain_energy")
+                got = None if se.error else element_part(W, W.rat(me.value), els)
+                want = None if se.error else element_part(W, W.rat(se.value), els)
+                ok = None if got is None or want is None else W.is_zero(got - want)
+                if ok is False and (me.tainted or se.tainted):
+                    ok = None
+                ctx.decide(rule, ok, scope, None, construct=f"energy:{b}:{tag}",
+                           detail=f"the energy of {b} (elements {els}) is the single-block energy of its material over those elements",
+                           bad_detail=f"multi-block strain energy, part of the elements {els} of {b}: it is not the energy of the block's own material model over the block's "
+                                      f"own elements (operands not restricted by the block's element ids, or the model selected by another key): "
+                                      f"{short(got - want if got is not None and want is not None else None, 200)}")
+            # all elements covered exactly once
+            tot = sum((len(v) for v in BLOCKS.values()))
+            parts = [element_part(W, W.rat(me.value), [e]) for e in range(NE)]
+            ctx.decide(rule, None if any(p is None for p in parts) else all(not W.is_zero(p) for p in parts), scope, None, construct=f"energy:coverage:{tag}",
+                       detail=f"every one of the {tot} elements contributes to the multi-block energy",
+                       bad_detail="an element of the mesh does not contribute to the multi-block strain energy")
+        # ---- stiffness, element by element
+        ef, mk = stiffness_of(ctx, S, multi, rule, scope)
+        if ef is not None:
+            for (b, els), m in zip(BLOCKS.items(), mats):
+                se = singles[m].ev("compute_strain_energy")
+                zero = [e for e in els if ef[e] == "zero"]
+                F, err, _, ft = element_sum(S, ef, els)
+                want = None if se.error else element_part(W, W.rat(se.value), els)
+                if zero:
+                    ok, why = False, f"the blocks of elements {zero} are never written (scattered with other ids)"
+                elif err or want is None:
+                    ok, why = None, err or "single-block energy not available"
+                else:
+                    bad = W.nonaffine(_A.norm(F - want))
+                    ok = not bad
+                    why = "the function differentiated for these elements is not the block material's energy of these elements"
+                    if not ok and (ft or mk.tainted or se.tainted):
+                        ok = None
+                ctx.decide(rule, ok, scope, None, construct=f"stiffness:{b}:{tag}",
+                           detail=f"the stiffness blocks of {b} (elements {els}) are Hessians of that block's energy, stored at those elements",
+                           bad_detail=f"multi-block element stiffnesses of {b} (elements {els}): {why} (operand not restricted by the block's element ids, result "
+                                      f"scattered with other ids, or model selected by another key)")
+        # ---- state update, initial state, output fields: rows of the block = single-block result of the block's material
+        for field, what in (("compute_updated_internal_variables", "state-update"), ("compute_initial_state", "initial-state"),
+                            ("compute_output_energy_densities_and_stresses", "output")):
+            mv = multi.ev(field)
+            if mv.error:
+                report_exc(ctx, rule, scope, f"{what}:{tag}", mv, field, block_context=True)
+                continue
+            for (b, els), m in zip(BLOCKS.items(), mats):
+                sv = singles[m].ev(field)
+                if sv.error:
+                    ctx.undecided(rule, scope, None, construct=f"{what}:{b}:{tag}", detail=f"single-block {field}: {sv.error}")
+                    continue
+                try:
+                    if isinstance(mv.value, tuple):
+                        ok = isinstance(sv.value, tuple) and len(sv.value) == len(mv.value) and all(rows_equal(W, x, y, els) for x, y in zip(mv.value, sv.value))
+                    else:
+                        ok = rows_equal(W, mv.value, sv.value, els)
+                except ERR as ex:
+                    ok = None
+                if ok is False and (mv.tainted or sv.tainted):
+                    ok = None
+                ctx.decide(rule, ok, scope, None, construct=f"{what}:{b}:{tag}",
+                           detail=f"{field}: the rows of {b} (elements {els}) are the single-block result for that block's material",
+                           bad_detail=f"multi-block {field}: the rows of the elements {els} of {b} differ from what the block's own material model gives for those "
+                                      f"elements (operands restricted / results scattered with other ids than the block's, or another block's model)")
+        # ---- the same material in every block: nothing changes
+        sa = singles["A"]
+        for field, what in (("compute_strain_energy", "energy"), ("compute_updated_internal_variables", "state-update"),
+                            ("compute_output_energy_densities_and_stresses", "output")):
+            a, b_ = same.ev(field), sa.ev(field)
+            if a.error or b_.error:
+                if a.error and isinstance(a.exc, MappedSizeMismatch):
+                    continue        # already reported above
+                ctx.undecided(rule, scope, None, construct=f"split:{what}:{tag}", detail=f"{field}: {a.error or b_.error}")
+                continue
+            try:
+                if isinstance(a.value, tuple):
+                    ok = all(W.same(x, y) for x, y in zip(a.value, b_.value)) and len(a.value) == len(b_.value)
+                else:
+                    ok = W.same(a.value, b_.value)
+            except ERR:
+                ok = None
+            if ok is False and (a.tainted or b_.tainted):
+                ok = None
+            ctx.decide(rule, ok, scope, None, construct=f"split:{what}:{tag}",
+                       detail=f"{field}: splitting the mesh into blocks with the same material changes nothing",
+                       bad_detail=f"{field} of the multi-block factory with the same material in every block differs from the single-block factory's")
+        sme = same.ev(STIFF["multi"])
+        efs, _why = (None, None) if sme.error else element_functions(S, sme)
+        sE = sa.ev("compute_strain_energy")
+        if efs is not None and not sE.error:
+            bad = und = None
+            for e in range(NE):
+                if efs[e] == "zero":
+                    bad = bad or f"element {e} has no stiffness block"
+                    continue
+                Fa, ea, _, ta = element_sum(S, efs, [e])
+                want = element_part(W, W.rat(sE.value), [e])
+                if ea or want is None:
+                    und = ea or "single-block energy is not a sum of element contributions"
+                    break
+                if W.nonaffine(_A.norm(Fa - want)):
+                    if ta or sme.tainted or sE.tainted:
+                        und = "a kernel could not be interpreted"
+                        break
+                    bad = bad or f"element {e}: the differentiated function is not the element's part of the single-block energy"
+            ctx.decide(rule, None if und else bad is None, scope, None, construct=f"split:stiffness:{tag}",
+                       detail="element stiffnesses: splitting the mesh into blocks with the same material changes nothing",
+                       bad_detail=f"element stiffnesses of the multi-block factory with the same material in every block are not the Hessians of the single-block "
+                                  f"factory's energy: {bad or und}")
+    if n_done == 0:
+        raise Incomplete("the multi-block factory could not be evaluated")
+    # FunctionSpace.evaluate_on_block over an index block: rows are those of the whole-mesh evaluation
+    evb = ctx.need(f"{FS}:evaluate_on_block")
+    try:
+        Ld = PyFunc("lagrangian_density", lambda it, a, k: it.opaque("L", list(a)))
+        full = I.call(W.fn(FS, "evaluate_on_block"), [W.fs, W.U, W.Q, W.dt, Ld, slice(None)], {})
+        for b, els in BLOCKS.items():
+            part = I.call(W.fn(FS, "evaluate_on_block"), [W.fs, W.U, W.Q, W.dt, Ld, W.blocks[b]], {})
+            ok = isinstance(part, Arr) and isinstance(full, Arr) and part.shape[0] == len(els) and all(W.same(part.index(i), full.index(e)) for i, e in enumerate(els))
+            ctx.decide(rule, ok, evb, None, construct=f"evaluate_on_block:{b}",
+                       detail=f"evaluate_on_block over the element ids {els} returns the rows {els} of the whole-mesh evaluation",
+                       bad_detail=f"evaluate_on_block over the element ids {els} does not return the values of those elements: a per-element operand is not restricted by [block]")
+    except MappedSizeMismatch as ex:
+        ctx.refuted(rule, evb, None, construct="evaluate_on_block:mapped-operand",
+                    detail=f"evaluate_on_block over an index block: jax.vmap of {ex.fname} receives per-element operands of lengths "
+                           f"{sorted(set(ex.sizes.values()))} (positions {sorted(ex.sizes)}): an operand is not restricted by [block]")
+    except ERR as ex:
+        ctx.undecided(rule, evb, None, construct="evaluate_on_block", detail=f"cannot interpret: {type(ex).__name__}: {ex}")
 
 
 # ------------------------------------------------------------------ selftest variants
@@ -725,6 +1143,182 @@ def variants(repo):
         Variant("truthiness guard on projection degree", P,
                 sub_in_func("create_multi_block_mechanics_functions", "if pressureProjectionDegree is not None:", "if pressureProjectionDegree:"),
                 "D2/T6-projection-option-guard"),
+        # ---- further breaking edits (each must be reported by the rule that owns the broken fact)
+        Variant("multi-block energy always uses the first block's model", P,
+                sub_in_func("_compute_strain_energy_multi_block", "materialModel = blockModels[blockKey]", "materialModel = blockModels[list(blockModels)[0]]"),
+                "D3/T9-block-restricted"),
+        Variant("element integral without quadrature volumes (hessian path)", F,
+                sub_in_func("integrate_element_from_local_field", "return np.dot(fVals, elemVols)", "return np.sum(fVals)"),
+                "D2/T6-energy-vs-hessian-path"),
+        Variant("element hessians get gamma for beta", P,
+                sub_in_func("create_dynamics_functions", "newmarkParameters.beta, materialModel.compute_energy_density, modify_element_gradient)",
+                            "newmarkParameters.gamma, materialModel.compute_energy_density, modify_element_gradient)"),
+                "D2/T6-newmark-term-fields"),
+        Variant("state update with the unprojected transformation", P,
+                sub_in_func("create_mechanics_functions", "materialModel.compute_state_new, modify_element_gradient)", "materialModel.compute_state_new, grad_2D_to_3D)"),
+                "D2/T6-one-gradient-transformation"),
+        Variant("density receives the field value as coordinates (energy path)", F,
+                sub_in_func("evaluate_on_element", "(elemVals, elemGrads, elemStates, elemXs, dt, *params)", "(elemVals, elemGrads, elemStates, elemVals, dt, *params)"),
+                "D2/T6-energy-vs-hessian-path"),
+        Variant("multi-block state update reads the first rows instead of the block's", P,
+                sub_in_func("_compute_updated_internal_variables_multi_block", "blockStates = states[elemIds]", "blockStates = states[:elemIds.size]"),
+                "D3/T9-block-restricted"),
+        Variant("hoop strain from the axial displacement", P,
+                sub_in_func("axisymmetric_gradient", "disp[0]/coord[0]", "disp[1]/coord[0]"),
+                "D2/T14-mode-dispatch"),
+        Variant("truthiness guard in the shared projection helper", P,
+                sub_in_func("define_pressure_projection_gradient_tranformation", "if pressureProjectionDegree is not None:", "if pressureProjectionDegree:"),
+                "D2/T6-projection-option-guard"),
+        Variant("element kernel gathers the field where the coordinates belong", P,
+                sub_in_func("compute_element_stiffness_from_global_fields", "elCoords = coords[elConn,:]", "elCoords = U[elConn,:]"),
+                "D2/T5-hessian-of-element-energy"),
+        Variant("multi-block stiffness scattered to the first rows", P,
+                sub_in_func("_compute_element_stiffnesses_multi_block", "elementHessians.at[elemIds].set(blockHessians)", "elementHessians.at[np.arange(elemIds.size)].set(blockHessians)"),
+                "D3/T9-block-restricted"),
+        Variant("hessian of the strain part only", P,
+                sub_in_func("_compute_newmark_element_hessians", "kinetic_energy_density(W, density)/(newmarkBeta*dtime**2) + strain_energy_density(gradW, Q, dtime)",
+                            "strain_energy_density(gradW, Q, dtime)"),
+                "D2/T6-newmark-term-fields"),
+        Variant("projection wrapper rebound to its own name (unbounded recursion)", P,
+                sub_in_func("create_mechanics_functions", "            return grad_2D_to_3D(elemGrads, elemShapes, elemVols, elemNodalDisps, elemNodalCoords)",
+                            "            return modify_element_gradient(elemGrads, elemShapes, elemVols, elemNodalDisps, elemNodalCoords)"),
+                "D2/T6-one-gradient-transformation"),
+        # ---- further preserving rewrites (must stay silent)
+        Variant("multi-block energy as sum over items()", P,
+                sub_in_func("_compute_strain_energy_multi_block",
+                            """    energy = 0.0
+    for blockKey in blockModels:
+        materialModel = blockModels[blockKey]
+        elemIds = functionSpace.mesh.blocks[blockKey]
+        
+        L = strain_energy_density_to_lagrangian_density(materialModel.compute_energy_density)
+        
+        blockEnergy = FunctionSpace.integrate_over_block(functionSpace, UField, stateField, dt, L,
+                                                         elemIds, modify_element_gradient=modify_element_gradient)
+        
+        energy += blockEnergy
+    return energy""",
+                            """    def block_energy(key, model):
+        density = strain_energy_density_to_lagrangian_density(model.compute_energy_density)
+        return FunctionSpace.integrate_over_block(functionSpace, UField, stateField, dt, density, functionSpace.mesh.blocks[key],
+                                                  modify_element_gradient=modify_element_gradient)
+    return sum(block_energy(k, m) for k, m in blockModels.items())"""), None),
+        Variant("element kernel: keyword call, inlined gathers, hessian as jacfwd(jacrev)", P,
+                lambda src: (lambda a, b: b(a(src)) if a(src) else None)(
+                    sub("element_hess_func = hessian(FunctionSpace.integrate_element_from_local_field)",
+                        "element_hess_func = jacfwd(jacrev(FunctionSpace.integrate_element_from_local_field, argnums=0), argnums=0)"),
+                    sub("""    elDisp = U[elConn,:]
+    elCoords = coords[elConn,:]
+    return element_hess_func(elDisp, elCoords, elInternals, dt, elShapes, elShapeGrads,
+                             elVols, lagrangian_density, modify_element_gradient)""",
+                        """    return element_hess_func(U[elConn], coords[elConn], elInternals, dt, elShapes, elShapeGrads, elVols,
+                             func=lagrangian_density, modify_element_gradient=modify_element_gradient)""")), None),
+        Variant("block integral as sum of products", F,
+                sub_in_func("integrate_over_block", "return np.dot(vals.ravel(), functionSpace.vols[block].ravel())", "return np.sum(vals*functionSpace.vols[block])"), None),
+        Variant("mode dispatch through a table, projection switch as a named flag, hook as lambda", P,
+                sub_in_func("create_mechanics_functions",
+                            """    if mode2D == 'plane strain':
+        grad_2D_to_3D = plane_strain_gradient_transformation
+    elif mode2D == 'axisymmetric':
+        grad_2D_to_3D = axisymmetric_element_gradient_transformation
+    else:
+        raise
+
+    modify_element_gradient = grad_2D_to_3D
+    if pressureProjectionDegree is not None:
+        masterJ = Interpolants.make_parent_element_2d(degree=pressureProjectionDegree)
+        xigauss = functionSpace.quadratureRule.xigauss
+        shapesJ = Interpolants.compute_shapes(masterJ, xigauss).values
+
+        def modify_element_gradient(elemGrads, elemShapes, elemVols, elemNodalDisps, elemNodalCoords):
+            elemGrads = volume_average_J_gradient_transformation(elemGrads, elemVols, shapesJ)
+            return grad_2D_to_3D(elemGrads, elemShapes, elemVols, elemNodalDisps, elemNodalCoords)
+""",
+                            """    transformations = {'plane strain': plane_strain_gradient_transformation,
+                       'axisymmetric': axisymmetric_element_gradient_transformation}
+    if mode2D not in transformations:
+        raise ValueError(mode2D)
+    grad_2D_to_3D = transformations[mode2D]
+
+    withoutProjection = pressureProjectionDegree is None
+    if withoutProjection:
+        modify_element_gradient = grad_2D_to_3D
+    else:
+        shapesJ = Interpolants.compute_shapes(Interpolants.make_parent_element_2d(degree=pressureProjectionDegree),
+                                              functionSpace.quadratureRule.xigauss).values
+        modify_element_gradient = lambda g, s, v, d, c: grad_2D_to_3D(volume_average_J_gradient_transformation(g, v, shapesJ), s, v, d, c)
+"""), None),
+        Variant("newmark hessian as strain hessian plus scaled mass hessian", P,
+                sub_in_func("_compute_newmark_element_hessians",
+                            """    def lagrangian_density(W, gradW, Q, X, dtime):
+        return kinetic_energy_density(W, density)/(newmarkBeta*dtime**2) + strain_energy_density(gradW, Q, dtime)
+    f =  vmap(compute_element_stiffness_from_global_fields,
+              (None, None, 0, None, 0, 0, 0, 0, None, None))
+    fs = functionSpace
+    # The strain energy must be linearized about U. The kinetic term is quadratic in
+    # U - UPredicted, so its Hessian does not depend on the evaluation point.
+    return f(U, fs.mesh.coords, internals, dt, fs.mesh.conns, fs.shapes, fs.shapeGrads, fs.vols,
+             lagrangian_density, modify_element_gradient)""",
+                            """    def kinetic(W, gradW, Q, X, dtime):
+        return kinetic_energy_density(W, density)
+    strain = strain_energy_density_to_lagrangian_density(strain_energy_density)
+    f = vmap(compute_element_stiffness_from_global_fields, in_axes=(None, None, 0, None, 0, 0, 0, 0, None, None))
+    fs = functionSpace
+    geometry = (fs.mesh.conns, fs.shapes, fs.shapeGrads, fs.vols)
+    stiffness = f(U, fs.mesh.coords, internals, dt, *geometry, strain, modify_element_gradient)
+    mass = f(U - UPredicted, fs.mesh.coords, internals, dt, *geometry, kinetic, modify_element_gradient)
+    return stiffness + mass/(newmarkBeta*dt**2)"""), None),
+        Variant("multi-block stiffness: guard clause, enumerate, partial", P,
+                sub_in_func("_compute_element_stiffnesses_multi_block",
+                            """    for blockKey in blockModels:
+        materialModel = blockModels[blockKey]
+        L = strain_energy_density_to_lagrangian_density(materialModel.compute_energy_density)
+        elemIds = functionSpace.mesh.blocks[blockKey]
+        f =  vmap(compute_element_stiffness_from_global_fields,
+                  (None, None, 0, None, 0, 0, 0, 0, None, None))
+        blockHessians = f(U, fs.mesh.coords, stateVariables[elemIds], dt, fs.mesh.conns[elemIds],
+                          fs.shapes[elemIds], fs.shapeGrads[elemIds], fs.vols[elemIds],
+                          L, modify_element_gradient)
+        elementHessians = elementHessians.at[elemIds].set(blockHessians)
+    return elementHessians""",
+                            """    restrict = lambda ids: tuple(a[ids] for a in (stateVariables, fs.mesh.conns, fs.shapes, fs.shapeGrads, fs.vols))
+    for n, (name, model) in enumerate(blockModels.items()):
+        ids = fs.mesh.blocks[name]
+        if ids.size == 0:
+            continue
+        q, conns, shapes, shapeGrads, vols = restrict(ids)
+        kernel = partial(compute_element_stiffness_from_global_fields,
+                         lagrangian_density=strain_energy_density_to_lagrangian_density(model.compute_energy_density),
+                         modify_element_gradient=modify_element_gradient)
+        hessians = vmap(lambda s, c, N, dN, w: kernel(U, fs.mesh.coords, s, dt, c, N, dN, w))(q, conns, shapes, shapeGrads, vols)
+        elementHessians = elementHessians.at[ids].set(hessians)
+    return elementHessians"""), None),
+        Variant("projection right-hand side by einsum", P, sub("rhs = np.dot(elemVols*Js, pShapes)", "rhs = np.einsum('q,qn->n', elemVols*Js, pShapes)"), None),
+        Variant("FunctionSpace: shared gradient helper, matrix products instead of vmapped interpolation, einsum gradient", F,
+                lambda src: (lambda a, b, c: (lambda s1: (lambda s2: c(s2) if s2 else None)(b(s1)) if s1 else None)(a(src)))(
+                    sub("""    elemVals = jax.vmap(interpolate_to_point, (None,0))(elemNodalField, elemShapes)
+    elemGrads = jax.vmap(compute_quadrature_point_field_gradient, (None,0))(elemNodalField, elemShapeGrads)
+    elemGrads = modify_element_gradient(elemGrads, elemShapes, elemVols, elemNodalField, elemNodalCoords)
+    elemPoints = jax.vmap(interpolate_to_point, (None,0))(elemNodalCoords, elemShapes)
+    fVals = jax.vmap(func, (0, 0, 0, 0, None))(elemVals, elemGrads, elemStates, elemPoints, dt)
+    return np.dot(fVals, elemVols)""",
+                        """    gradients = _transformed_gradients(elemNodalField, elemNodalCoords, elemShapes, elemShapeGrads, elemVols, modify_element_gradient)
+    values, points = elemShapes@elemNodalField, elemShapes@elemNodalCoords
+    integrand = jax.vmap(func, in_axes=(0, 0, 0, 0, None))(values, gradients, elemStates, points, dt)
+    return elemVols@integrand"""),
+                    sub("""    elemNodalDisps = U[elemConnectivity]
+    elemGrads = jax.vmap(compute_quadrature_point_field_gradient, (None, 0))(elemNodalDisps, elemShapeGrads)
+    elemNodalCoords = coords[elemConnectivity]
+    elemGrads = modify_element_gradient(elemGrads, elemShapes, elemVols, elemNodalDisps, elemNodalCoords)
+    return elemGrads""",
+                        """    return _transformed_gradients(U[elemConnectivity], coords[elemConnectivity], elemShapes, elemShapeGrads, elemVols, modify_element_gradient)
+
+
+def _transformed_gradients(nodalValues, nodalCoords, shapes, shapeGrads, vols, transform):
+    raw = np.einsum('ai,qaj->qij', nodalValues, shapeGrads)
+    return transform(raw, shapes, vols, nodalValues, nodalCoords)"""),
+                    sub("""    dg = np.tensordot(u, shapeGrad, axes=[0,0])
+    return dg""", """    return u.T@shapeGrad""")), None),
         Variant("reformat Mechanics", P, reformat(), None),
         Variant("reformat FunctionSpace", F, reformat(), None),
         Variant("alpha-rename _compute_element_stiffnesses_multi_block", P,
